@@ -1696,7 +1696,7 @@ Proof.
                  apply (sraw_parent E T nx _ n o S G). now apply NEd.
               ** destruct (Sg eq_refl) as [Sn _]. subst dd. rewrite (Mono n o G).
                  unfold isd in I. destruct o as [[|?] ?]; simpl in *; auto; discriminate.
-           ++ simpl is_group. rewrite Own. simpl. apply has_children_iff. exists op. split.
+           ++ simpl is_group. rewrite Own. cbn [andb]. apply has_children_iff. exists op. split.
               ** apply is_child_iff. exists (obj_name schema u). reflexivity.
               ** change (t_has (puts L T1) op = true). unfold t_has. now rewrite HasOp.
         -- destruct (path_eqb op p) eqn:X2; [|discriminate].
@@ -1707,7 +1707,7 @@ Proof.
            apply andb_true_intro. split.
            ++ exact GrpMd.
            ++ simpl is_data. pose proof (name_ok_obj E (N.succ nx) schema nx EO Kn) as NK.
-              fold u in NK. rewrite NK by lia. simpl.
+              fold u in NK. rewrite NK by lia. cbn [andb].
               rewrite forallb_forall. intros q I. rewrite SO2, O1 in I.
               apply in_app_or in I as [I|[<-|[]]].
               ** apply orb_true_iff. left. apply negb_true_iff, String.eqb_neq. now apply Fr'.
@@ -1720,3 +1720,1979 @@ Proof.
       * apply (sr_prov _ _ _ _ S q I).
       * rewrite Sop, String.eqb_refl in X. discriminate.
 Qed.
+
+(** ** Removing paths outside the TOC *)
+
+(** [T'] is [T] minus a set of paths that is closed under extension. *)
+Definition Restr (T T' : tree) : Prop :=
+  (forall p x, t_get T' p = Some x -> t_get T p = Some x) /\
+  (forall p c, t_has T p = true -> t_has T' p = false -> is_prefix p c = true -> t_has T' c = false).
+
+Lemma is_prefix_parent p : p <> [] -> is_prefix (parent p) p = true.
+Proof.
+  intros NE. destruct (exists_last NE) as (l & x & ->). rewrite parent_app1. apply is_prefix_app.
+Qed.
+
+Lemma restr_entries E T T' n pr :
+  SyncRaw E T n pr -> Restr T T' ->
+  (forall d m x, has_reserved d = false -> meta_seg m = true -> t_get T' (d ++ [m]) = Some x ->
+                 owner_ok T' d m = true /\ has_children T' (d ++ [m]) = true) ->
+  forall p o, in_toc p = false -> t_get T' p = Some o -> chk_entry E T' n p o = true.
+Proof.
+  intros S [R1 R2] HD p o Ip G. pose proof (R1 p o G) as G0.
+  pose proof (sr_entries _ _ _ _ S p o G0) as C. unfold chk_entry in *.
+  apply andb_prop in C as [C1 C2]. apply andb_true_intro. split.
+  - destruct p as [|a p]; auto. set (pp := a :: p) in *.
+    destruct (t_get T (parent pp)) as [x|] eqn:Gp; [|discriminate].
+    destruct (t_get T' (parent pp)) as [y|] eqn:Gp'.
+    + now rewrite (R1 _ _ Gp') in Gp; inversion Gp; subst.
+    + exfalso. assert (t_has T' pp = false).
+      { apply (R2 (parent pp) pp); unfold t_has; try rewrite Gp; try rewrite Gp'; auto.
+        apply is_prefix_parent. discriminate. }
+      unfold t_has in H. now rewrite G in H.
+  - destruct (classify p) eqn:K; auto.
+    + apply classify_dir_inv in K as (-> & Hd & Hm).
+      destruct (HD d m o Hd Hm G) as [O H]. rewrite O, H.
+      apply andb_prop in C2 as [C2 _]. apply andb_prop in C2 as [C2 _]. now rewrite C2.
+    + apply andb_prop in C2 as [C2 C3]. rewrite C2. simpl.
+      rewrite forallb_forall in *. intros q I. apply C3. apply in_objs in I as [I1 I2].
+      apply in_objs. split; auto. unfold t_has in *. destruct (t_get T' q) eqn:X; [|discriminate].
+      now rewrite (R1 _ _ X).
+Qed.
+
+Lemma restr_refl T : Restr T T.
+Proof. split; auto. intros p c H1 H2. congruence. Qed.
+
+Lemma restr_trans A B C : Restr A B -> Restr B C -> Restr A C.
+Proof.
+  intros [H1 H2] [G1 G2]. split.
+  - intros p x X. apply H1, G1, X.
+  - intros p c P1 P2 Pc. destruct (t_has B p) eqn:PB.
+    + eapply G2; eauto.
+    + destruct (t_has C c) eqn:X; auto. unfold t_has in X.
+      destruct (t_get C c) eqn:Y; [|discriminate]. apply G1 in Y.
+      assert (t_has B c = false) by (eapply H2; eauto). unfold t_has in H. now rewrite Y in H.
+Qed.
+
+Lemma is_prefix_trans a b c : is_prefix a b = true -> is_prefix b c = true -> is_prefix a c = true.
+Proof.
+  intros H1 H2. rewrite (is_prefix_split b c H2), (is_prefix_split a b H1), <- app_assoc.
+  apply is_prefix_app.
+Qed.
+
+Lemma restr_cut q T : Restr T (t_cut q T).
+Proof.
+  split.
+  - intros p x. rewrite t_get_cut. destruct (is_prefix q p); [discriminate|auto].
+  - intros p c P1 P2 Pc. rewrite t_has_cut in *. rewrite P1, andb_true_r in P2.
+    apply negb_false_iff in P2. now rewrite (is_prefix_trans q p c P2 Pc).
+Qed.
+
+Lemma restr_same_outside T T' :
+  SameOutside T T' -> (forall p x, t_get T' p = Some x -> t_get T p = Some x) ->
+  (forall p c, t_has T p = true -> t_has T' p = false -> is_prefix p c = true -> t_has T' c = false) ->
+  Restr T T'.
+Proof. intros _ H1 H2. split; auto. Qed.
+
+(** Objects are leaves, metadata directories hold only objects. *)
+Lemma split_res_first p : snd (split_res p) <> [] ->
+  exists d x r, p = d ++ x :: r /\ has_reserved d = false /\ reserved_seg x = true /\
+                split_res p = (d, x :: r).
+Proof.
+  intros H. destruct (split_res_spec p) as (S1 & S2 & S3).
+  destruct (split_res p) as [a b] eqn:E. simpl in *. destruct b as [|x r]; [contradiction|].
+  exists a, x, r. auto.
+Qed.
+
+Lemma split_res_at d x r : has_reserved d = false -> reserved_seg x = true ->
+  split_res (d ++ x :: r) = (d, x :: r).
+Proof.
+  intros Hd Hx. rewrite (split_res_app d (x :: r) Hd). simpl. rewrite Hx. simpl.
+  now rewrite app_nil_r.
+Qed.
+
+Lemma obj_prefix_eq a b :
+  is_obj_path a = true -> is_obj_path b = true -> is_prefix a b = true -> a = b.
+Proof.
+  unfold is_obj_path. destruct (classify a) eqn:Ka; try discriminate.
+  destruct (classify b) eqn:Kb; try discriminate. intros _ _ P.
+  apply classify_obj_inv in Ka as (-> & Hd & Hm & Hn).
+  apply classify_obj_inv in Kb as (-> & Hd0 & Hm0 & Hn0).
+  pose proof (is_prefix_split _ _ P) as S.
+  assert (X : split_res (d0 ++ [m0; name0]) = (d0, [m0; name0])).
+  { apply split_res_at; auto. now apply meta_seg_reserved. }
+  rewrite S in X. rewrite <- app_assoc in X. simpl in X.
+  rewrite (split_res_at d m) in X; auto; [|now apply meta_seg_reserved].
+  inversion X. subst. destruct (skipn _ _); [now rewrite app_nil_r in S|discriminate].
+Qed.
+
+Lemma dir_prefix_obj d m b :
+  has_reserved d = false -> meta_seg m = true -> is_obj_path b = true ->
+  is_prefix (d ++ [m]) b = true -> exists nm, b = d ++ [m; nm].
+Proof.
+  intros Hd Hm. unfold is_obj_path. destruct (classify b) eqn:Kb; try discriminate. intros _ P.
+  apply classify_obj_inv in Kb as (-> & Hd0 & Hm0 & Hn0).
+  pose proof (is_prefix_split _ _ P) as S.
+  assert (X : split_res (d0 ++ [m0; name]) = (d0, [m0; name])).
+  { apply split_res_at; auto. now apply meta_seg_reserved. }
+  rewrite S in X. rewrite <- app_assoc in X. simpl in X.
+  rewrite (split_res_at d m) in X; auto; [|now apply meta_seg_reserved].
+  inversion X as [[H0 H1 H2]]. subst. rewrite H2. eauto.
+Qed.
+
+Lemma rm_as_cut q M :
+  (forall x, In x M -> is_obj_path x = true) -> is_obj_path q = true ->
+  filter (fun p => negb (is_prefix q p)) M = rm q M.
+Proof.
+  intros HM Hq. unfold rm. apply filter_ext_in. intros x I. f_equal.
+  destruct (is_prefix q x) eqn:P.
+  - apply obj_prefix_eq in P; auto. subst. symmetry. apply path_eqb_refl.
+  - destruct (path_eqb x q) eqn:X; auto. apply path_eqb_eq in X. subst.
+    now rewrite is_prefix_refl in P.
+Qed.
+
+Lemma objs_all_obj T x : In x (objs T) -> is_obj_path x = true.
+Proof. intros I. now apply in_objs in I. Qed.
+
+(** ** Detach *)
+
+Lemma starts_has_eq a c : starts_with (a ++ String eq_char "") c = true -> no_char eq_char c = false.
+Proof.
+  revert c. induction a as [|x a IH]; intros c; cbn -[Ascii.eqb eq_char].
+  - destruct c as [|y c]; [discriminate|]. destruct (Ascii.eqb eq_char y) eqn:E; [|discriminate].
+    intros _. cbn -[Ascii.eqb eq_char]. rewrite Ascii.eqb_sym, E. reflexivity.
+  - destruct c as [|y c]; [discriminate|]. destruct (Ascii.eqb x y); [|discriminate].
+    intros H. cbn -[Ascii.eqb eq_char]. rewrite (IH c H). apply andb_false_r.
+Qed.
+
+Lemma starts_schema_eq a b c :
+  no_char eq_char b = true -> no_char eq_char c = true ->
+  starts_with (obj_name a "") (obj_name b c) = true -> a = b.
+Proof.
+  unfold obj_name. revert b. induction a as [|x a IH]; intros b Hb Hc; cbn -[Ascii.eqb eq_char].
+  - destruct b as [|y b]; auto. cbn -[Ascii.eqb eq_char] in *.
+    destruct (Ascii.eqb eq_char y) eqn:E; [|discriminate].
+    rewrite Ascii.eqb_sym, E in Hb. discriminate.
+  - destruct b as [|y b]; cbn -[Ascii.eqb eq_char].
+    + destruct (Ascii.eqb x eq_char) eqn:E; [|discriminate]. intros H.
+      apply starts_has_eq in H. congruence.
+    + destruct (Ascii.eqb x y) eqn:E; [|discriminate]. apply Ascii.eqb_eq in E. subst y.
+      intros H. f_equal. apply IH; auto. cbn -[Ascii.eqb eq_char] in Hb.
+      now apply andb_prop in Hb as [_ Hb].
+Qed.
+
+Lemma sraw_uniq E T n pr : SyncRaw E T n pr -> UidUniq (objs T).
+Proof.
+  intros S q1 q2 I1 I2 Eu. pose proof I1 as J1. apply in_objs in J1 as [P1 O1].
+  unfold t_has in P1. destruct (t_get T q1) as [o|] eqn:G; [|discriminate].
+  pose proof (sr_entries _ _ _ _ S q1 o G) as C. unfold chk_entry in C.
+  apply andb_prop in C as [_ C]. unfold is_obj_path in O1.
+  destruct (classify q1); try discriminate. apply andb_prop in C as [_ C].
+  rewrite forallb_forall in C. specialize (C q2 I2). apply orb_prop in C as [C|C].
+  - apply negb_true_iff, String.eqb_neq in C. congruence.
+  - apply path_eqb_eq in C. congruence.
+Qed.
+
+Lemma sraw_shape E T n pr p o :
+  SyncRaw E T n pr -> t_get T p = Some o -> in_toc p = false ->
+  match classify p with PUser | PMetaDir _ _ | PMetaObj _ _ _ => True | _ => False end.
+Proof.
+  intros S G I. pose proof (sr_entries _ _ _ _ S p o G) as C. unfold chk_entry in C.
+  apply andb_prop in C as [_ C]. destruct (classify p); auto; congruence.
+Qed.
+
+Lemma sraw_obj_name E T n pr d m nm o :
+  SyncRaw E T n pr -> has_reserved d = false -> meta_seg m = true ->
+  t_get T (d ++ [m; nm]) = Some o ->
+  classify (d ++ [m; nm]) = PMetaObj d m nm /\ name_ok E n nm = true.
+Proof.
+  intros S Hd Hm G.
+  assert (I : in_toc (d ++ [m; nm]) = false).
+  { destruct (in_toc (d ++ [m; nm])) eqn:X; auto. apply in_toc_inv in X as (r & X).
+    destruct d; simpl in X; inversion X; subst.
+    - now rewrite meta_toc in Hm.
+    - simpl in Hd; discriminate. }
+  pose proof (sraw_shape E T n pr _ o S G I) as Sh.
+  pose proof (sr_entries _ _ _ _ S _ o G) as C. unfold chk_entry in C.
+  apply andb_prop in C as [_ C].
+  destruct (reserved_seg nm) eqn:R.
+  - exfalso. unfold classify in Sh. rewrite (split_res_at d m [nm]) in Sh; auto;
+      [|now apply meta_seg_reserved].
+    destruct d; rewrite ?(meta_not_toc m Hm), ?Hm, R in Sh; simpl in Sh; auto.
+  - rewrite (classify_obj d m nm Hd Hm R) in *. split; auto.
+    apply andb_prop in C as [C _]. now apply andb_prop in C as [_ C].
+Qed.
+
+Lemma user_not_under a b : has_reserved a = true -> has_reserved b = false -> is_prefix a b = false.
+Proof.
+  intros Ha Hb. destruct (is_prefix a b) eqn:P; auto.
+  rewrite (is_prefix_split a b P), has_reserved_app, Ha in Hb. discriminate.
+Qed.
+
+Lemma restr_unreg T pr s u : Restr T (unreg_link T pr s u).
+Proof.
+  unfold unreg_link, unreg_schema.
+  repeat match goal with
+         | |- Restr _ (if ?c then _ else _) => destruct c
+         | |- Restr _ (t_cut _ _) => eapply restr_trans; [|apply restr_cut]
+         end; try apply restr_refl.
+Qed.
+
+Lemma filter_all {X} (f : X -> bool) l : (forall x, In x l -> f x = true) -> filter f l = l.
+Proof.
+  induction l as [|x l IH]; simpl; auto. intros H. rewrite (H x) by auto. f_equal. apply IH. auto.
+Qed.
+
+Lemma in_toc_prefix a b : in_toc a = true -> is_prefix a b = true -> in_toc b = true.
+Proof.
+  intros Ha P. apply in_toc_inv in Ha as (r & ->). destruct b as [|y b]; [discriminate|].
+  rewrite is_prefix_cons in P. apply andb_prop in P as [P _]. simpl. now rewrite String.eqb_sym.
+Qed.
+
+Lemma detach_raw E st n schema :
+  env_ok E = true ->
+  SyncRaw E (raw st) (next_id st) (prov st) ->
+  has_reserved n = false ->
+  SyncRaw E (raw (fst (c_detach st n schema))) (next_id (fst (c_detach st n schema)))
+          (prov (fst (c_detach st n schema))).
+Proof.
+  intros EO S Un. unfold c_detach. destruct (t_get (raw st) n) as [o|] eqn:G; [|exact S].
+  set (T := raw st) in *. set (nx := next_id st) in *. set (pr := prov st) in *.
+  set (isd := is_data (Some o)) in *. set (md := meta_dir_of n isd) in *.
+  destruct (find _ (map fst T)) as [op|] eqn:F; [|exact S].
+  apply find_some in F as [F1 F2]. apply andb_prop in F2 as [F2 F3].
+  apply is_child_iff in F2 as (nm & Hop).
+  assert (NEd : isd = true -> n <> []).
+  { intros I ->. pose proof (sr_root _ _ _ _ S) as R. fold T in R. rewrite G in R.
+    unfold isd in I. destruct o as [[|?] ?]; simpl in *; discriminate. }
+  destruct (meta_dir_shape n isd Un NEd) as (dd & mm & Hmd & Udd & Mmm & _ & _).
+  fold md in Hmd. rewrite Hmd, app_assoc1 in Hop.
+  apply in_keys_t_has in F1. unfold t_has in F1.
+  destruct (t_get T op) as [x|] eqn:Gop; [|discriminate]. clear F1.
+  rewrite Hop in Gop. destruct (sraw_obj_name E T nx pr dd mm nm x S Udd Mmm Gop) as [Cop NK].
+  rewrite <- Hop in Gop, Cop.
+  assert (Oop : is_obj_path op = true) by (unfold is_obj_path; now rewrite Cop).
+  assert (Top : in_toc op = false) by now apply obj_not_toc.
+  assert (Tmd : in_toc md = false) by (rewrite Hmd; now apply dir_not_toc).
+  assert (Iop : In op (objs T)).
+  { apply in_objs. split; auto. unfold t_has. now rewrite Gop. }
+  assert (Lop : last_seg op = nm) by (rewrite Hop; apply last_seg_app2).
+  rewrite Lop in F3.
+  (* the schema named in the call is the schema of the object found *)
+  unfold name_ok in NK. apply andb_prop in NK as [NK NK3]. apply andb_prop in NK as [NK1 NK2].
+  apply String.eqb_eq in NK1. apply known_decl in NK2 as (dc & _ & InD & Ep).
+  destruct (env_ok_decl E dc EO InD) as (A1 & _ & _). rewrite Ep in A1. clear InD Ep dc.
+  apply uuid_lt_iff in NK3 as (k & _ & Hk).
+  assert (A2 : no_char eq_char (obj_uuid nm) = true) by (rewrite <- Hk; apply uuid_of_no_eq).
+  rewrite NK1 in F3. apply (starts_schema_eq schema _ _ A1 A2) in F3.
+  assert (Ssch : schema = sch op) by (unfold sch; now rewrite Lop).
+  assert (Suid : obj_uuid (last_seg op) = uid op) by reflexivity.
+  rewrite Ssch, Suid. cbn [fst raw next_id prov set_raw].
+  set (M := objs T).
+  assert (TO : TocOk E M T) by (intros p I; apply (sr_tocok _ _ _ _ S p I)).
+  pose proof (sraw_uniq E T nx pr S) as UQ. fold M in UQ.
+  assert (PO : ProvOk E pr M) by (intros q I; apply (sr_prov _ _ _ _ S q I)).
+  set (T1 := unreg_link T pr (sch op) (uid op)).
+  pose proof (ul_tocok E M T pr op TO UQ PO Iop) as TO1. fold T1 in TO1.
+  destruct (ul_outside T pr op) as (SO1 & SO2 & SO3). fold T1 in SO1, SO2, SO3.
+  pose proof (restr_unreg T pr (sch op) (uid op)) as R1. fold T1 in R1.
+  set (T2 := t_cut op T1).
+  assert (O2 : objs T2 = rm op M).
+  { unfold T2. rewrite objs_cut, SO2. apply rm_as_cut; auto. apply objs_all_obj. }
+  set (T3 := if has_children T2 md then T2 else t_cut md T2).
+  assert (R3 : Restr T T3).
+  { apply (restr_trans T T1); auto. apply (restr_trans T1 T2); [apply restr_cut|].
+    unfold T3. destruct (has_children T2 md); [apply restr_refl|apply restr_cut]. }
+  assert (L3 : forall p, is_prefix md p = false -> t_get T3 p = t_get T1 p).
+  { intros p Hp. unfold T3. destruct (has_children T2 md); unfold T2; rewrite ?t_get_cut, ?Hp.
+    - destruct (is_prefix op p) eqn:X; auto.
+      rewrite (is_prefix_trans md op p) in Hp; [discriminate| |auto].
+      rewrite Hop, Hmd. rewrite <- app_assoc1. apply is_prefix_app.
+    - destruct (is_prefix op p) eqn:X; auto.
+      rewrite (is_prefix_trans md op p) in Hp; [discriminate| |auto].
+      rewrite Hop, Hmd. rewrite <- app_assoc1. apply is_prefix_app. }
+  assert (L3toc : forall p, in_toc p = true -> t_get T3 p = t_get T1 p).
+  { intros p I. apply L3. destruct (is_prefix md p) eqn:X; auto.
+    assert (in_toc md = true); [|congruence].
+    destruct p as [|t p]; [discriminate|]. rewrite Hmd in *.
+    destruct dd as [|a dd']; simpl in X; apply andb_prop in X as [X _];
+      apply String.eqb_eq in X; subst; simpl in I; apply String.eqb_eq in I; subst.
+    - now rewrite meta_toc in Mmm.
+    - simpl in Udd; discriminate. }
+  assert (O3 : objs T3 = rm op M).
+  { unfold T3. destruct (has_children T2 md) eqn:HC; auto.
+    rewrite objs_cut, O2. apply filter_all. intros y Iy. apply negb_true_iff.
+    destruct (is_prefix md y) eqn:X; auto. exfalso.
+    rewrite <- O2 in Iy. pose proof (objs_all_obj T2 y Iy) as Oy. apply in_objs in Iy as [Py _].
+    rewrite Hmd in X. destruct (dir_prefix_obj dd mm y Udd Mmm Oy X) as (ny & ->).
+    assert (has_children T2 md = true); [|congruence].
+    apply has_children_iff. exists (dd ++ [mm; ny]). split; auto.
+    apply is_child_iff. exists ny. now rewrite Hmd, app_assoc1. }
+  assert (TO3 : TocOk E (rm op M) T3).
+  { intros p I. rewrite (L3toc p I). now apply TO1. }
+  assert (Usr : forall p, has_reserved p = false -> t_get T3 p = t_get T p).
+  { intros p Hp. rewrite L3.
+    - apply SO1. destruct (in_toc p) eqn:X; auto. apply in_toc_reserved in X. congruence.
+    - apply user_not_under; auto. rewrite Hmd, has_reserved_app. simpl.
+      rewrite (meta_seg_reserved mm Mmm). now rewrite orb_true_r. }
+  constructor.
+  - unfold T3. destruct (has_children T2 md); unfold T2; repeat apply nodup_cut; apply SO3;
+      apply (sr_nodup _ _ _ _ S).
+  - rewrite Usr by reflexivity. apply (sr_root _ _ _ _ S).
+  - intros p o' Gp. destruct (in_toc p) eqn:Ip.
+    + apply (toc_entries_ok E (rm op M)); auto. rewrite Usr by reflexivity.
+      apply (sr_root _ _ _ _ S).
+    + apply (restr_entries E T T3 nx pr S R3); auto.
+      intros d m y Hd Hm Gy. split.
+      * (* the owner is a user node or another leaf: untouched *)
+        pose proof (proj1 R3 _ _ Gy) as Gy0.
+        pose proof (sr_entries _ _ _ _ S _ _ Gy0) as C. unfold chk_entry in C.
+        apply andb_prop in C as [_ C]. rewrite (classify_dir d m Hd Hm) in C.
+        apply andb_prop in C as [C _]. apply andb_prop in C as [_ C].
+        unfold owner_ok in *. cbv zeta in *.
+        set (x0 := drop_str (String.length METADOR_META_PREF) m) in *. clearbody x0.
+        destruct (String.eqb x0 ""); [now rewrite Usr|].
+        set (w := d ++ [x0]) in *.
+        destruct (has_reserved w) eqn:Rw; [|now rewrite Usr].
+        (* a reserved owner name: it is neither below [md] nor in the TOC *)
+        assert (Pw : is_prefix md w = false).
+        { destruct (is_prefix md w) eqn:X; auto. exfalso.
+          pose proof (is_prefix_split md w X) as Sw. unfold w in Sw. rewrite Hmd in Sw.
+          destruct (skipn _ _) as [|z l] eqn:K in Sw.
+          - rewrite app_nil_r in Sw. apply app_inj_tail in Sw as [-> Sm].
+            assert (Ew : w = md) by (unfold w; now rewrite Sm, Hmd). rewrite Ew in C.
+            destruct (t_get T md) as [g|] eqn:Gm; [|discriminate].
+            rewrite Hmd in Gm. pose proof (sraw_dir_group E T nx pr dd mm g S Udd Mmm Gm).
+            destruct g as [[|?] ?]; simpl in *; discriminate.
+          - assert (has_reserved d = true); [|congruence].
+            assert (Sw' : d ++ [x0] =
+                          (dd ++ [mm] ++ removelast (z :: l)) ++ [last (z :: l) ""]).
+            { rewrite Sw. rewrite <- !app_assoc. f_equal. f_equal.
+              apply app_removelast_last. discriminate. }
+            apply app_inj_tail in Sw' as [-> _]. rewrite !has_reserved_app. simpl.
+            rewrite (meta_seg_reserved mm Mmm). now rewrite orb_true_r. }
+        rewrite (L3 w Pw). destruct (in_toc w) eqn:Iw.
+        -- exfalso. apply in_toc_inv in Iw as (r & Iw).
+           destruct d as [|a d'].
+           ++ unfold w in Iw. cbn [app] in Iw. inversion Iw as [[Ex Er]].
+              assert (Ew : w = toc_segs) by (unfold w; cbn [app]; now rewrite Ex).
+              rewrite Ew in C. pose proof (sat_group _ (TO toc_segs eq_refl)) as X.
+              destruct (t_get T toc_segs) as [[[|?] ?]|]; simpl in *; discriminate.
+           ++ unfold w in Iw. cbn [app] in Iw. inversion Iw; subst. simpl in Hd; discriminate.
+        -- now rewrite SO1.
+      * destruct (list_eq_dec string_dec (d ++ [m]) md) as [Em|Nm].
+        -- rewrite Em in *. unfold T3 in *. destruct (has_children T2 md) eqn:HC; auto.
+           rewrite t_get_cut, is_prefix_refl in Gy. discriminate.
+        -- pose proof (proj1 R3 _ _ Gy) as Gy0.
+           pose proof (sr_entries _ _ _ _ S _ _ Gy0) as C. unfold chk_entry in C.
+           apply andb_prop in C as [_ C]. rewrite (classify_dir d m Hd Hm) in C.
+           apply andb_prop in C as [_ C]. apply has_children_iff in C as (c & C1 & C2).
+           apply is_child_iff in C1 as (y0 & ->). apply has_children_iff.
+           exists ((d ++ [m]) ++ [y0]). split; [apply is_child_iff; eauto|].
+           rewrite app_assoc1 in *. unfold t_has in C2.
+           destruct (t_get T (d ++ [m; y0])) as [g|] eqn:Gc; [|discriminate].
+           destruct (sraw_obj_name E T nx pr d m y0 g S Hd Hm Gc) as [Cc _].
+           assert (Oc : is_obj_path (d ++ [m; y0]) = true) by (unfold is_obj_path; now rewrite Cc).
+           assert (Pc : is_prefix md (d ++ [m; y0]) = false).
+           { destruct (is_prefix md (d ++ [m; y0])) eqn:X; auto. exfalso. rewrite Hmd in X.
+             destruct (dir_prefix_obj dd mm _ Udd Mmm Oc X) as (ny & Ey).
+             rewrite <- !app_assoc1 in Ey. apply app_inj_tail in Ey as [Ey _].
+             apply Nm. now rewrite Hmd. }
+           unfold t_has. rewrite (L3 _ Pc), SO1, Gc; auto. now apply obj_not_toc.
+  - rewrite O3. exact TO3.
+  - intros q I. rewrite O3 in I. apply in_rm in I as [I _]. apply (sr_prov _ _ _ _ S q I).
+Qed.
+
+(** ** The in-memory index: association maps *)
+
+Lemma sm_get_app m k k' v :
+  sm_get (m ++ [(k', v)]) k =
+  match sm_get m k with Some x => Some x | None => if String.eqb k' k then Some v else None end.
+Proof. induction m as [|[a b] m IH]; simpl; auto. destruct (String.eqb a k); auto. Qed.
+
+Lemma sm_get_map_set m k v k' :
+  sm_get (map (fun kv => if String.eqb (fst kv) k then (fst kv, v) else kv) m) k' =
+  if String.eqb k k' then (match sm_get m k' with Some _ => Some v | None => None end)
+  else sm_get m k'.
+Proof.
+  induction m as [|[a b] m IH]; simpl.
+  - now destruct (String.eqb k k').
+  - destruct (String.eqb a k) eqn:E1; simpl.
+    + apply String.eqb_eq in E1. subst a. destruct (String.eqb k k') eqn:E2; auto.
+    + destruct (String.eqb a k') eqn:E3; auto.
+      apply String.eqb_eq in E3. subst a. rewrite String.eqb_sym, E1. reflexivity.
+Qed.
+
+Lemma sm_get_set m k v k' :
+  sm_get (sm_set m k v) k' = if String.eqb k k' then Some v else sm_get m k'.
+Proof.
+  unfold sm_set, sm_has. destruct (sm_get m k) eqn:G.
+  - rewrite sm_get_map_set. destruct (String.eqb k k') eqn:E; auto.
+    apply String.eqb_eq in E. subst. now rewrite G.
+  - rewrite sm_get_app. destruct (String.eqb k k') eqn:E.
+    + apply String.eqb_eq in E. subst. now rewrite G.
+    + now destruct (sm_get m k').
+Qed.
+
+Lemma sm_get_del m k k' :
+  sm_get (sm_del m k) k' = if String.eqb k k' then None else sm_get m k'.
+Proof.
+  unfold sm_del. induction m as [|[a b] m IH]; simpl.
+  - now destruct (String.eqb k k').
+  - destruct (String.eqb a k) eqn:E1; simpl.
+    + apply String.eqb_eq in E1. subst a. rewrite IH. now destruct (String.eqb k k').
+    + rewrite IH. destruct (String.eqb a k') eqn:E3; auto.
+      apply String.eqb_eq in E3. subst a. rewrite String.eqb_sym, E1. reflexivity.
+Qed.
+
+Lemma sm_has_set m k v k' : sm_has (sm_set m k v) k' = String.eqb k k' || sm_has m k'.
+Proof. unfold sm_has. rewrite sm_get_set. now destruct (String.eqb k k'). Qed.
+
+Lemma sm_val_set m k v k' : sm_val (sm_set m k v) k' = if String.eqb k k' then v else sm_val m k'.
+Proof. unfold sm_val. rewrite sm_get_set. now destruct (String.eqb k k'). Qed.
+
+Lemma sm_has_del m k k' : sm_has (sm_del m k) k' = negb (String.eqb k k') && sm_has m k'.
+Proof. unfold sm_has. rewrite sm_get_del. now destruct (String.eqb k k'). Qed.
+
+Lemma sm_val_del m k k' : sm_val (sm_del m k) k' = if String.eqb k k' then [] else sm_val m k'.
+Proof. unfold sm_val. rewrite sm_get_del. now destruct (String.eqb k k'). Qed.
+
+Lemma mem_str_iff x l : mem_str x l = true <-> In x l.
+Proof.
+  unfold mem_str. rewrite existsb_exists. split.
+  - intros (y & I & H). apply String.eqb_eq in H. now subst.
+  - intros I. exists x. split; auto. apply String.eqb_refl.
+Qed.
+
+Lemma in_remove_str x l y : In y (remove_str x l) <-> In y l /\ y <> x.
+Proof.
+  unfold remove_str. rewrite filter_In. split; intros [H1 H2]; split; auto.
+  - intros ->. now rewrite String.eqb_refl in H2.
+  - apply negb_true_iff, String.eqb_neq. auto.
+Qed.
+
+(** ** Parents / children maps *)
+
+Record PCOk (E : env) (S : list string) (P C : smap) : Prop := mk_pcok {
+  pc_pk : forall p, sm_has P p = existsb (fun s => in_path E p s) S;
+  pc_ck : forall p, sm_has C p = sm_has P p;
+  pc_pv : forall p l, sm_get P p = Some l -> l = path_of_schema E p;
+  pc_cv : forall p c, In c (sm_val C p) <-> In c S /\ in_path E p c = true /\ c <> p
+}.
+
+Lemma upc_add_go_spec s : forall rest pre P C,
+  let P' := fst (upc_add_go s pre rest P C) in
+  let C' := snd (upc_add_go s pre rest P C) in
+  (forall k, sm_get P' k = match sm_get P k with
+                           | Some x => Some x
+                           | None => if mem_str k rest then Some (pre ++ prefix_upto k rest) else None
+                           end) /\
+  (forall k, sm_has C' k = sm_has C k || mem_str k rest) /\
+  (forall k c, In c (sm_val C' k) <->
+               In c (sm_val C k) \/ (mem_str k rest = true /\ k <> s /\ c = s)).
+Proof.
+  induction rest as [|p r IH]; intros pre P C; simpl.
+  - repeat split.
+    + intros k. now destruct (sm_get P k).
+    + intros k. now rewrite orb_false_r.
+    + tauto.
+    + intros [H|(H & _)]; auto. discriminate.
+  - set (P1 := if sm_has P p then P else P ++ [(p, pre ++ [p])]).
+    set (C1 := if sm_has C p then C else C ++ [(p, [])]).
+    set (C2 := if String.eqb p s then C1
+               else if mem_str s (sm_val C1 p) then C1 else sm_set C1 p (sm_val C1 p ++ [s])).
+    destruct (IH (pre ++ [p]) P1 C2) as (I1 & I2 & I3).
+    assert (G1 : forall k, sm_get P1 k = match sm_get P k with Some x => Some x
+                                         | None => if String.eqb p k then Some (pre ++ [p]) else None end).
+    { intros k. unfold P1, sm_has. destruct (sm_get P p) eqn:X.
+      - destruct (sm_get P k) eqn:Y; auto. destruct (String.eqb p k) eqn:Z; auto.
+        apply String.eqb_eq in Z. subst. congruence.
+      - apply sm_get_app. }
+    assert (H1 : forall k, sm_has C1 k = sm_has C k || String.eqb p k).
+    { intros k. unfold C1, sm_has. destruct (sm_get C p) eqn:X.
+      - destruct (sm_get C k) eqn:Y; auto. destruct (String.eqb p k) eqn:Z; auto.
+        apply String.eqb_eq in Z. subst. congruence.
+      - rewrite sm_get_app. destruct (sm_get C k); auto. now destruct (String.eqb p k). }
+    assert (V1 : forall k, sm_val C1 k = sm_val C k).
+    { intros k. unfold C1, sm_has, sm_val. destruct (sm_get C p) eqn:X; auto.
+      rewrite sm_get_app. destruct (sm_get C k) eqn:Y; auto.
+      now destruct (String.eqb p k). }
+    assert (H2 : forall k, sm_has C2 k = sm_has C1 k).
+    { intros k. unfold C2. destruct (String.eqb p s); auto.
+      destruct (mem_str s (sm_val C1 p)); auto. rewrite sm_has_set.
+      destruct (String.eqb p k) eqn:Z; auto. apply String.eqb_eq in Z. subst.
+      rewrite H1, String.eqb_refl. now rewrite orb_true_r. }
+    assert (V2 : forall k c, In c (sm_val C2 k) <->
+                             In c (sm_val C1 k) \/ (p = k /\ p <> s /\ c = s)).
+    { intros k c. unfold C2. destruct (String.eqb p s) eqn:Z.
+      - apply String.eqb_eq in Z. split; auto. intros [H|(_ & H & _)]; auto. contradiction.
+      - apply String.eqb_neq in Z. destruct (mem_str s (sm_val C1 p)) eqn:Ms.
+        + apply mem_str_iff in Ms. split; auto. intros [H|(-> & _ & ->)]; auto.
+        + rewrite sm_val_set. destruct (String.eqb p k) eqn:Y.
+          * apply String.eqb_eq in Y. subst k. rewrite in_app_iff. simpl. split.
+            -- intros [H|[H|[]]]; auto.
+            -- intros [H|(_ & _ & ->)]; auto.
+          * apply String.eqb_neq in Y. split; auto. intros [H|(H & _)]; auto. contradiction. }
+    repeat split.
+    + intros k. rewrite I1, G1. destruct (sm_get P k); auto.
+      destruct (String.eqb p k) eqn:Z.
+      * apply String.eqb_eq in Z. subst. rewrite String.eqb_refl. reflexivity.
+      * rewrite (String.eqb_sym k p), Z. simpl. destruct (mem_str k r); auto.
+        now rewrite <- app_assoc.
+    + intros k. rewrite I2, H2, H1. rewrite (String.eqb_sym k p).
+      now rewrite orb_assoc.
+    + rewrite I3, V2, V1. rewrite (String.eqb_sym k p).
+      intros [[H|(-> & H1' & H2')]|(H1' & H2' & H3')]; auto.
+      * right. rewrite String.eqb_refl. auto.
+      * right. rewrite H1', orb_true_r. auto.
+    + rewrite I3, V2, V1. rewrite (String.eqb_sym k p).
+      intros [H|(H1' & H2' & H3')]; auto.
+      destruct (String.eqb p k) eqn:Z.
+      * apply String.eqb_eq in Z. subst k. left. right. auto.
+      * right. simpl in H1'. auto.
+Qed.
+
+Definition self_in (E : env) : Prop := forall s, in_path E s s = true.
+Definition path_closed (E : env) : Prop :=
+  forall s k, in_path E k s = true -> prefix_upto k (path_of_schema E s) = path_of_schema E k.
+
+Lemma pcok_add E S P C s :
+  self_in E -> path_closed E -> PCOk E S P C ->
+  PCOk E (S ++ [s]) (fst (upc_add s (path_of_schema E s) (P, C)))
+       (snd (upc_add s (path_of_schema E s) (P, C))).
+Proof.
+  intros SI PCl [K1 K2 K3 K4]. unfold upc_add. simpl fst. simpl snd.
+  destruct (upc_add_go_spec s (path_of_schema E s) [] P C) as (I1 & I2 & I3).
+  constructor.
+  - intros p. unfold sm_has at 1. rewrite I1, existsb_app. simpl. rewrite orb_false_r.
+    rewrite <- K1. unfold sm_has, in_path. destruct (sm_get P p); auto.
+    now destruct (mem_str p (path_of_schema E s)).
+  - intros p. rewrite I2, K2. unfold sm_has at 2. rewrite I1. unfold sm_has.
+    destruct (sm_get P p); auto. now destruct (mem_str p (path_of_schema E s)).
+  - intros p l. rewrite I1. destruct (sm_get P p) eqn:G.
+    + intros H. inversion H; subst. now apply K3.
+    + destruct (mem_str p (path_of_schema E s)) eqn:X; [|discriminate].
+      intros H. inversion H. simpl. now apply PCl.
+  - intros p c. rewrite I3, K4, in_app_iff. simpl. unfold in_path at 2. split.
+    + intros [(H1 & H2 & H3)|(H1 & H2 & ->)]; repeat split; auto.
+    + intros ([H|[<-|[]]] & H2 & H3); [left|right]; repeat split; auto.
+Qed.
+
+(** Removal. *)
+Definition rem_step (S' : list string) (s : string) (PC : smap * smap) (p : string) : smap * smap :=
+  let '(P, C) := PC in
+  let C1 := if sm_has C p then sm_set C p (remove_str s (sm_val C p)) else C in
+  if negb (mem_str p S') && match sm_val C1 p with [] => true | _ => false end
+  then (sm_del P p, sm_del C1 p) else (P, C1).
+
+Lemma upc_remove_eq S' s PC : upc_remove S' s PC = fold_left (rem_step S' s) (sm_val (fst PC) s) PC.
+Proof. reflexivity. Qed.
+
+Definition kept (S' : list string) (s : string) (C : smap) (p : string) : bool :=
+  mem_str p S' || match remove_str s (sm_val C p) with [] => false | _ => true end.
+
+Lemma rem_fold_spec S' s : forall l P C,
+  NoDup l -> (forall p, In p l -> sm_has C p = true) ->
+  let P' := fst (fold_left (rem_step S' s) l (P, C)) in
+  let C' := snd (fold_left (rem_step S' s) l (P, C)) in
+  (forall k, sm_get P' k = if mem_str k l && negb (kept S' s C k) then None else sm_get P k) /\
+  (forall k, sm_has C' k = if mem_str k l && negb (kept S' s C k) then false else sm_has C k) /\
+  (forall k, sm_val C' k = if mem_str k l
+                           then (if kept S' s C k then remove_str s (sm_val C k) else [])
+                           else sm_val C k).
+Proof.
+  induction l as [|p l IH]; intros P C ND HC; simpl.
+  - repeat split; auto.
+  - inversion ND as [|? ? Np ND']; subst.
+    set (C1 := if sm_has C p then sm_set C p (remove_str s (sm_val C p)) else C).
+    assert (V1 : forall k, sm_val C1 k = if String.eqb p k then remove_str s (sm_val C k) else sm_val C k).
+    { intros k. unfold C1. rewrite (HC p) by (simpl; auto). rewrite sm_val_set.
+      destruct (String.eqb p k) eqn:Z; auto. apply String.eqb_eq in Z. now subst. }
+    assert (H1 : forall k, sm_has C1 k = sm_has C k).
+    { intros k. unfold C1. rewrite (HC p) by (simpl; auto). rewrite sm_has_set.
+      destruct (String.eqb p k) eqn:Z; auto. apply String.eqb_eq in Z. subst.
+      now rewrite (HC k) by (simpl; auto). }
+    assert (Kp : (negb (mem_str p S') && match sm_val C1 p with [] => true | _ => false end)
+                 = negb (kept S' s C p)).
+    { unfold kept. rewrite V1, String.eqb_refl. destruct (mem_str p S'); simpl; auto.
+      now destruct (remove_str s (sm_val C p)). }
+    rewrite Kp. destruct (kept S' s C p) eqn:Kpt; simpl negb; cbv iota.
+    + (* key stays *)
+      destruct (IH P C1 ND') as (I1 & I2 & I3).
+      { intros q I. rewrite H1. apply HC. simpl. auto. }
+      assert (Kq : forall k, In k l -> kept S' s C1 k = kept S' s C k).
+      { intros k I. unfold kept. rewrite V1. destruct (String.eqb p k) eqn:Z; auto.
+        apply String.eqb_eq in Z. subst. contradiction. }
+      repeat split.
+      * intros k. rewrite I1. destruct (String.eqb k p) eqn:Z; simpl.
+        -- apply String.eqb_eq in Z. subst k. rewrite Kpt. simpl.
+           destruct (mem_str p l) eqn:X; auto. apply mem_str_iff in X. contradiction.
+        -- destruct (mem_str k l) eqn:X; auto. apply mem_str_iff in X. now rewrite Kq.
+      * intros k. rewrite I2, H1. destruct (String.eqb k p) eqn:Z; simpl.
+        -- apply String.eqb_eq in Z. subst k. rewrite Kpt. simpl.
+           destruct (mem_str p l) eqn:X; auto. apply mem_str_iff in X. contradiction.
+        -- destruct (mem_str k l) eqn:X; auto. apply mem_str_iff in X. now rewrite Kq.
+      * intros k. rewrite I3, V1. rewrite (String.eqb_sym k p).
+        destruct (String.eqb p k) eqn:Z; simpl.
+        -- apply String.eqb_eq in Z. subst k. rewrite Kpt.
+           destruct (mem_str p l) eqn:X; auto. apply mem_str_iff in X. contradiction.
+        -- destruct (mem_str k l) eqn:X; auto. apply mem_str_iff in X. now rewrite Kq.
+    + (* key goes *)
+      destruct (IH (sm_del P p) (sm_del C1 p) ND') as (I1 & I2 & I3).
+      { intros q I. rewrite sm_has_del, H1. rewrite (HC q) by (simpl; auto).
+        destruct (String.eqb p q) eqn:Z; auto. apply String.eqb_eq in Z. subst. contradiction. }
+      assert (Kq : forall k, In k l -> kept S' s (sm_del C1 p) k = kept S' s C k).
+      { intros k I. unfold kept. rewrite sm_val_del, V1. destruct (String.eqb p k) eqn:Z; auto.
+        apply String.eqb_eq in Z. subst. contradiction. }
+      repeat split.
+      * intros k. rewrite I1, sm_get_del. rewrite (String.eqb_sym k p).
+        destruct (String.eqb p k) eqn:Z; simpl.
+        -- apply String.eqb_eq in Z. subst k. rewrite Kpt. simpl.
+           now destruct (mem_str p l && _).
+        -- destruct (mem_str k l) eqn:X; auto. apply mem_str_iff in X. now rewrite Kq.
+      * intros k. rewrite I2, sm_has_del, H1. rewrite (String.eqb_sym k p).
+        destruct (String.eqb p k) eqn:Z; simpl.
+        -- apply String.eqb_eq in Z. subst k. rewrite Kpt. simpl.
+           now destruct (mem_str p l && _).
+        -- destruct (mem_str k l) eqn:X; auto. apply mem_str_iff in X. now rewrite Kq.
+      * intros k. rewrite I3, sm_val_del, V1. rewrite (String.eqb_sym k p).
+        destruct (String.eqb p k) eqn:Z; simpl.
+        -- apply String.eqb_eq in Z. subst k. rewrite Kpt.
+           destruct (mem_str p l) eqn:X; auto. apply mem_str_iff in X. contradiction.
+        -- destruct (mem_str k l) eqn:X; auto. apply mem_str_iff in X. now rewrite Kq.
+Qed.
+
+Lemma existsb_remove_str (f : string -> bool) s S :
+  f s = false -> existsb f (remove_str s S) = existsb f S.
+Proof.
+  intros F. unfold remove_str. induction S as [|x S IH]; simpl; auto.
+  destruct (String.eqb s x) eqn:Z; simpl.
+  - apply String.eqb_eq in Z. subst. now rewrite F.
+  - now rewrite IH.
+Qed.
+
+Lemma nonempty_in {X} (l : list X) : match l with [] => false | _ => true end = true <-> exists x, In x l.
+Proof.
+  destruct l; split; try discriminate; auto.
+  - intros (x & []).
+  - intros _. exists x. simpl. auto.
+Qed.
+
+Lemma nodup_strs_sound l : nodup_strs l = true -> NoDup l.
+Proof.
+  induction l as [|x l IH]; simpl; intros H; constructor.
+  - apply andb_prop in H as [H _]. apply negb_true_iff in H. intros I.
+    apply mem_str_iff in I. congruence.
+  - apply andb_prop in H as [_ H]. auto.
+Qed.
+
+Lemma pcok_remove E S P C s :
+  self_in E -> NoDup (path_of_schema E s) -> PCOk E S P C -> In s S ->
+  PCOk E (remove_str s S) (fst (upc_remove (remove_str s S) s (P, C)))
+       (snd (upc_remove (remove_str s S) s (P, C))).
+Proof.
+  intros SI ND [K1 K2 K3 K4] Is. rewrite upc_remove_eq.
+  change (fst (P, C)) with P.
+  set (S' := remove_str s S).
+  assert (HasP : forall k, in_path E k s = true -> sm_has P k = true).
+  { intros k H. rewrite K1. apply existsb_exists. eauto. }
+  assert (Lp : sm_val P s = path_of_schema E s).
+  { pose proof (HasP s (SI s)) as H. unfold sm_has in H. unfold sm_val.
+    destruct (sm_get P s) eqn:G; [|discriminate]. now apply K3. }
+  rewrite Lp. set (l := path_of_schema E s) in *.
+  destruct (rem_fold_spec S' s l P C ND) as (I1 & I2 & I3).
+  { intros p I. rewrite K2. apply HasP. unfold in_path. now apply mem_str_iff. }
+  assert (Kin : forall k, mem_str k l = true -> kept S' s C k = existsb (fun c => in_path E k c) S').
+  { intros k Hk. apply Bool.eq_iff_eq_true. unfold kept. rewrite orb_true_iff, existsb_exists. split.
+    - intros [H|H].
+      + apply mem_str_iff in H. exists k. split; auto.
+      + apply nonempty_in in H as (c & H). apply in_remove_str in H as [H Ns].
+        apply K4 in H as (H1 & H2 & H3). exists c. split; auto. apply in_remove_str. auto.
+    - intros (c & H1 & H2). destruct (string_dec c k) as [->|Nk].
+      + left. now apply mem_str_iff.
+      + right. apply nonempty_in. exists c. apply in_remove_str in H1 as [H1 Ns].
+        apply in_remove_str. split; auto. apply K4. auto. }
+  assert (Kout : forall k, mem_str k l = false ->
+                           existsb (fun c => in_path E k c) S' = existsb (fun c => in_path E k c) S).
+  { intros k Hk. apply existsb_remove_str. exact Hk. }
+  constructor.
+  - intros k. unfold sm_has at 1. rewrite I1. destruct (mem_str k l) eqn:X; simpl.
+    + rewrite <- (Kin k X). pose proof (HasP k X) as H. unfold sm_has in H.
+      destruct (kept S' s C k); simpl; auto.
+    + rewrite (Kout k X), <- K1. reflexivity.
+  - intros k. rewrite I2. unfold sm_has at 2. rewrite I1.
+    destruct (mem_str k l && negb (kept S' s C k)); auto. apply K2.
+  - intros k l0. rewrite I1. destruct (mem_str k l && negb (kept S' s C k)); [discriminate|].
+    apply K3.
+  - intros k c. rewrite I3. destruct (mem_str k l) eqn:X.
+    + destruct (kept S' s C k) eqn:Kp.
+      * rewrite in_remove_str, K4. unfold S'. rewrite in_remove_str. tauto.
+      * split; [intros []|]. intros (H1 & H2 & H3). exfalso.
+        rewrite (Kin k X) in Kp. assert (existsb (fun c0 => in_path E k c0) S' = true); [|congruence].
+        apply existsb_exists. eauto.
+    + rewrite K4. unfold S'. rewrite in_remove_str. split.
+      * intros (H1 & H2 & H3). repeat split; auto. intros ->. unfold in_path in H2. fold l in H2. congruence.
+      * tauto.
+Qed.
+
+(** ** The index against an abstract set of links *)
+
+Record IxL (E : env) (L : list (string * string)) (ix : index) : Prop := mk_ixl {
+  il_links : forall us, In us (ix_links ix) <-> In us L;
+  il_schemas : forall s, In s (ix_schemas ix) <-> exists u, In (u, s) L;
+  il_pkgs : forall p, In p (ix_pkgs ix) <-> exists s, In s (ix_schemas ix) /\ pkg_of E s = p;
+  il_pc : PCOk E (ix_schemas ix) (ix_parents ix) (ix_children ix);
+  il_ukeys : forall p, sm_has (ix_used ix) p = true <-> In p (ix_pkgs ix);
+  il_uvals : forall p s, In s (sm_val (ix_used ix) p) <-> In s (ix_schemas ix) /\ pkg_of E s = p
+}.
+
+Lemma ixl_ext E L L' ix : (forall us, In us L <-> In us L') -> IxL E L ix -> IxL E L' ix.
+Proof.
+  intros H [A B C D F G]. constructor; auto.
+  - intros us. now rewrite A.
+  - intros s. rewrite B. split; intros (u & I); exists u; now apply H.
+Qed.
+
+Lemma ixl_register E L ix s u :
+  self_in E -> path_closed E -> IxL E L ix -> IxL E (L ++ [(u, s)]) (ix_register E ix (s, u)).
+Proof.
+  intros SI PCl [A B C D F G]. unfold ix_register, ix_reg_schema.
+  destruct (mem_str s (ix_schemas ix)) eqn:Ms.
+  - apply mem_str_iff in Ms. constructor; simpl; auto.
+    + intros us. rewrite !in_app_iff, A. reflexivity.
+    + intros s0. rewrite B. split.
+      * intros (u0 & I). exists u0. apply in_or_app. auto.
+      * intros (u0 & I). apply in_app_or in I as [I|[I|[]]]; eauto.
+        inversion I; subst. now apply B.
+  - assert (Ns : ~ In s (ix_schemas ix)).
+    { intros I. apply mem_str_iff in I. congruence. }
+    destruct (upc_add s (path_of_schema E s) (ix_parents ix, ix_children ix)) as [P' C'] eqn:UA.
+    pose proof (pcok_add E _ _ _ s SI PCl D) as D'. rewrite UA in D'. simpl in D'.
+    set (pk := pkg_of E s).
+    set (used0 := if mem_str pk (ix_pkgs ix) then ix_used ix else sm_set (ix_used ix) pk []).
+    assert (U0k : forall p, sm_has used0 p = true <-> In p (ix_pkgs ix) \/ p = pk).
+    { intros p. unfold used0. destruct (mem_str pk (ix_pkgs ix)) eqn:Mp.
+      - apply mem_str_iff in Mp. rewrite F. split; auto. intros [H| ->]; auto.
+      - rewrite sm_has_set, orb_true_iff, F. split.
+        + intros [H|H]; auto. apply String.eqb_eq in H. auto.
+        + intros [H| ->]; auto. left. apply String.eqb_refl. }
+    assert (U0v : forall p, sm_val used0 p = sm_val (ix_used ix) p).
+    { intros p. unfold used0. destruct (mem_str pk (ix_pkgs ix)) eqn:Mp; auto.
+      rewrite sm_val_set. destruct (String.eqb pk p) eqn:Z; auto.
+      apply String.eqb_eq in Z. subst p. unfold sm_val.
+      destruct (sm_get (ix_used ix) pk) eqn:X; auto.
+      assert (sm_has (ix_used ix) pk = true) by (unfold sm_has; now rewrite X).
+      apply F, mem_str_iff in H. congruence. }
+    constructor; simpl.
+    + intros us. rewrite !in_app_iff, A. reflexivity.
+    + intros s0. rewrite in_app_iff, B. simpl. split.
+      * intros [(u0 & I)|[<-|[]]]; [exists u0|exists u]; apply in_or_app; simpl; auto.
+      * intros (u0 & I). apply in_app_or in I as [I|[I|[]]]; eauto.
+        inversion I; subst. auto.
+    + intros p. fold pk. split.
+      * intros I. assert (I' : In p (ix_pkgs ix) \/ p = pk).
+        { destruct (mem_str pk (ix_pkgs ix)); auto. apply in_app_or in I as [I|[<-|[]]]; auto. }
+        destruct I' as [I'| ->].
+        -- apply C in I' as (s0 & I1 & I2). exists s0. split; auto. apply in_or_app. auto.
+        -- exists s. split; auto. apply in_or_app. simpl. auto.
+      * intros (s0 & I1 & I2). apply in_app_or in I1 as [I1|[<-|[]]].
+        -- assert (In p (ix_pkgs ix)) by (apply C; eauto).
+           destruct (mem_str pk (ix_pkgs ix)); auto. apply in_or_app. auto.
+        -- subst p. fold pk. destruct (mem_str pk (ix_pkgs ix)) eqn:Mp.
+           ++ now apply mem_str_iff.
+           ++ apply in_or_app. simpl. auto.
+    + exact D'.
+    + intros p. fold pk. rewrite sm_has_set, orb_true_iff, U0k. split.
+      * intros [H|[H| ->]].
+        -- apply String.eqb_eq in H. subst p. destruct (mem_str pk (ix_pkgs ix)) eqn:Mp.
+           ++ now apply mem_str_iff.
+           ++ apply in_or_app. simpl. auto.
+        -- destruct (mem_str pk (ix_pkgs ix)); auto. apply in_or_app. auto.
+        -- destruct (mem_str pk (ix_pkgs ix)) eqn:Mp.
+           ++ now apply mem_str_iff.
+           ++ apply in_or_app. simpl. auto.
+      * intros I. destruct (mem_str pk (ix_pkgs ix)) eqn:Mp; auto.
+        apply in_app_or in I as [I|[<-|[]]]; auto; try (left; apply String.eqb_refl).
+    + intros p s0. fold pk. rewrite sm_val_set. destruct (String.eqb pk p) eqn:Z.
+      * apply String.eqb_eq in Z. subst p. rewrite !in_app_iff, U0v, G. simpl. split.
+        -- intros [(H1 & H2)|[<-|[]]]; auto.
+        -- intros ([H1|[<-|[]]] & H2); auto.
+      * apply String.eqb_neq in Z. rewrite U0v, G, in_app_iff. simpl. split.
+        -- intros (H1 & H2). auto.
+        -- intros ([H1|[<-|[]]] & H2); auto. contradiction.
+Qed.
+
+Lemma ixl_unregister E L ix s u :
+  self_in E -> NoDup (path_of_schema E s) -> IxL E L ix ->
+  In (u, s) L -> (forall s', In (u, s') L -> s' = s) ->
+  IxL E (filter (fun us => negb (String.eqb (fst us) u)) L) (ix_unregister E ix (s, u)).
+Proof.
+  intros SI ND [A B C D F G] I UU. unfold ix_unregister, ix_unregister_gen.
+  set (links := filter (fun us => negb (String.eqb (fst us) u)) (ix_links ix)).
+  set (L' := filter (fun us => negb (String.eqb (fst us) u)) L).
+  assert (AL : forall us, In us links <-> In us L').
+  { intros us. unfold links, L'. rewrite !filter_In, A. reflexivity. }
+  assert (InL' : forall u0 s0, In (u0, s0) L' <-> In (u0, s0) L /\ u0 <> u).
+  { intros u0 s0. unfold L'. rewrite filter_In. simpl. rewrite negb_true_iff, String.eqb_neq.
+    reflexivity. }
+  assert (Is : In s (ix_schemas ix)) by (apply B; eauto).
+  destruct (existsb (fun us => String.eqb (snd us) s) links) eqn:X.
+  - apply existsb_exists in X as ([u1 s1] & X1 & X2). simpl in X2. apply String.eqb_eq in X2.
+    subst s1. apply AL in X1.
+    constructor; simpl; auto.
+    intros s0. rewrite B. split.
+    + intros (u0 & I0). destruct (string_dec u0 u) as [->|Nu].
+      * apply UU in I0. subst s0. eauto.
+      * exists u0. apply InL'. auto.
+    + intros (u0 & I0). apply InL' in I0 as [I0 _]. eauto.
+  - assert (NoS : forall u0, ~ In (u0, s) L').
+    { intros u0 I0. apply AL in I0.
+      assert (existsb (fun us => String.eqb (snd us) s) links = true); [|congruence].
+      apply existsb_exists. exists (u0, s). split; auto. apply String.eqb_refl. }
+    unfold ix_unreg_schema. cbn [ix_links ix_schemas ix_parents ix_children ix_pkgs ix_used].
+    set (S' := remove_str s (ix_schemas ix)).
+    assert (BS : forall s0, In s0 S' <-> exists u0, In (u0, s0) L').
+    { intros s0. unfold S'. rewrite in_remove_str, B. split.
+      - intros ((u0 & I0) & Ns). exists u0. apply InL'. split; auto.
+        intros ->. apply UU in I0. contradiction.
+      - intros (u0 & I0). split.
+        + apply InL' in I0 as [I0 _]. eauto.
+        + intros ->. now apply (NoS u0). }
+    pose proof (pcok_remove E _ _ _ s SI ND D Is) as D'. fold S' in D'.
+    destruct (upc_remove S' s (ix_parents ix, ix_children ix)) as [P' C'] eqn:UR. simpl in D'.
+    set (pk := pkg_of E s).
+    assert (HasPk : sm_has (ix_used ix) pk = true) by (apply F, C; eauto).
+    rewrite HasPk.
+    set (used1 := sm_set (ix_used ix) pk (remove_str s (sm_val (ix_used ix) pk))).
+    assert (V1 : forall p s0, In s0 (sm_val used1 p) <-> In s0 S' /\ pkg_of E s0 = p).
+    { intros p s0. unfold used1. rewrite sm_val_set. destruct (String.eqb pk p) eqn:Z.
+      - apply String.eqb_eq in Z. subst p. rewrite in_remove_str, G. unfold S'.
+        rewrite in_remove_str. tauto.
+      - apply String.eqb_neq in Z. rewrite G. unfold S'. rewrite in_remove_str. split.
+        + intros (H1 & H2). repeat split; auto. intros ->. now apply Z.
+        + tauto. }
+    assert (K1 : forall p, sm_has used1 p = sm_has (ix_used ix) p).
+    { intros p. unfold used1. rewrite sm_has_set. destruct (String.eqb pk p) eqn:Z; auto.
+      apply String.eqb_eq in Z. now subst. }
+    destruct (sm_val used1 pk) as [|z zs] eqn:Vpk.
+    + (* the package goes *)
+      assert (NoPk : forall s0, In s0 S' -> pkg_of E s0 <> pk).
+      { intros s0 I0 Ep. assert (In s0 (sm_val used1 pk)) by (apply V1; auto).
+        rewrite Vpk in H. destruct H. }
+      constructor; simpl; auto.
+      * intros p. rewrite in_remove_str, C. split.
+        -- intros ((s0 & I0 & Ep) & Np). exists s0. split; auto. unfold S'.
+           apply in_remove_str. split; auto. intros ->. now apply Np.
+        -- intros (s0 & I0 & Ep). split.
+           ++ exists s0. split; auto. unfold S' in I0. now apply in_remove_str in I0 as [I0 _].
+           ++ intros ->. now apply (NoPk s0).
+      * intros p. rewrite sm_has_del, K1, in_remove_str, andb_true_iff, negb_true_iff,
+          String.eqb_neq, F. split; intros [H1 H2]; split; auto.
+      * intros p s0. rewrite sm_val_del. destruct (String.eqb pk p) eqn:Z.
+        -- apply String.eqb_eq in Z. subst p. split; [intros []|].
+           intros (I0 & Ep). now apply (NoPk s0).
+        -- apply V1.
+    + constructor; simpl; auto.
+      * intros p. rewrite C. split.
+        -- intros (s0 & I0 & Ep). destruct (string_dec s0 s) as [->|Ns].
+           ++ fold pk in Ep. subst p. assert (In z (sm_val used1 pk)) by (rewrite Vpk; simpl; auto).
+              apply V1 in H as (H1 & H2). eauto.
+           ++ exists s0. split; auto. unfold S'. apply in_remove_str. auto.
+        -- intros (s0 & I0 & Ep). exists s0. split; auto. unfold S' in I0.
+           now apply in_remove_str in I0 as [I0 _].
+      * intros p. rewrite K1. apply F.
+Qed.
+
+Definition UUL (L : list (string * string)) : Prop :=
+  forall u s1 s2, In (u, s1) L -> In (u, s2) L -> s1 = s2.
+
+Lemma unreg_fold E : forall gone L ix,
+  self_in E -> (forall s, NoDup (path_of_schema E s)) ->
+  IxL E L ix -> UUL L -> NoDup (map fst gone) -> incl gone L ->
+  IxL E (filter (fun us => negb (mem_str (fst us) (map fst gone))) L)
+      (fold_left (fun ix us => ix_unregister E ix (swap us)) gone ix).
+Proof.
+  intros gone. induction gone as [|[u s] gone IH]; intros L ix SI ND HL UU NDg Inc;
+    cbn [fold_left map fst].
+  - rewrite filter_all; auto.
+  - inversion NDg as [|? ? Nu NDg']; subst.
+    assert (I : In (u, s) L) by (apply Inc; simpl; auto).
+    pose proof (ixl_unregister E L ix s u SI (ND s) HL I (fun s' H => UU u s' s H I)) as H1.
+    set (L1 := filter (fun us => negb (String.eqb (fst us) u)) L) in *.
+    assert (UU1 : UUL L1).
+    { intros u0 s1 s2 I1 I2. unfold L1 in *. apply filter_In in I1 as [I1 _], I2 as [I2 _].
+      eapply UU; eauto. }
+    assert (Inc1 : incl gone L1).
+    { intros [u0 s0] I0. unfold L1. apply filter_In. split; [apply Inc; simpl; auto|].
+      simpl. apply negb_true_iff, String.eqb_neq. intros ->. apply Nu.
+      apply in_map_iff. exists (u, s0). auto. }
+    pose proof (IH L1 _ SI ND H1 UU1 NDg' Inc1) as H2. change (swap (u, s)) with (s, u).
+    eapply ixl_ext; [|exact H2]. intros us. unfold L1. rewrite !filter_In.
+    cbn [mem_str existsb]. fold (mem_str (fst us) (map fst gone)).
+    rewrite negb_orb. rewrite andb_true_iff. tauto.
+Qed.
+
+Lemma reg_fold E : forall come L ix,
+  self_in E -> path_closed E -> IxL E L ix ->
+  IxL E (L ++ come) (fold_left (fun ix us => ix_register E ix (swap us)) come ix).
+Proof.
+  intros come. induction come as [|[u s] come IH]; intros L ix SI PCl HL; cbn [fold_left].
+  - now rewrite app_nil_r.
+  - pose proof (ixl_register E L ix s u SI PCl HL) as H1.
+    pose proof (IH _ _ SI PCl H1) as H2. rewrite <- app_assoc in H2. exact H2.
+
+Qed.
+
+Lemma pair_in_iff x l : pair_in x l = true <-> In x l.
+Proof.
+  unfold pair_in. rewrite existsb_exists. split.
+  - intros ([a b] & I & H). apply andb_prop in H as [H1 H2]. simpl in *.
+    apply String.eqb_eq in H1, H2. destruct x. simpl in *. now subst.
+  - intros I. exists x. split; auto. now rewrite !String.eqb_refl.
+Qed.
+
+Lemma NoDup_filter_map {X Y} (f : X -> Y) (g : X -> bool) l :
+  NoDup (map f l) -> NoDup (map f (filter g l)).
+Proof.
+  induction l as [|x l IH]; simpl; auto. intros H. inversion H; subst.
+  destruct (g x); simpl; auto. constructor; auto. intros I. apply H2.
+  apply in_map_iff in I as (y & E & I). apply filter_In in I as [I _]. rewrite <- E.
+  now apply in_map.
+Qed.
+
+Lemma track_ixl E old new ix :
+  self_in E -> path_closed E -> (forall s, NoDup (path_of_schema E s)) ->
+  IxL E old ix -> UUL old -> NoDup (map fst old) ->
+  IxL E new
+      (fold_left (fun ix us => ix_register E ix (swap us))
+                 (filter (fun x => negb (pair_in x old)) new)
+                 (fold_left (fun ix us => ix_unregister E ix (swap us))
+                            (filter (fun x => negb (pair_in x new)) old) ix)).
+Proof.
+  intros SI PCl ND HL UU NDo.
+  set (gone := filter (fun x => negb (pair_in x new)) old).
+  set (come := filter (fun x => negb (pair_in x old)) new).
+  assert (H1 := unreg_fold E gone old ix SI ND HL UU).
+  assert (NDg : NoDup (map fst gone)) by (apply NoDup_filter_map; auto).
+  assert (Inc : incl gone old) by (intros x I; unfold gone in I; now apply filter_In in I as [I _]).
+  specialize (H1 NDg Inc).
+  pose proof (reg_fold E come _ _ SI PCl H1) as H2.
+  eapply ixl_ext; [|exact H2]. intros [u s]. rewrite in_app_iff, filter_In. unfold come.
+  rewrite filter_In. simpl. rewrite !negb_true_iff. split.
+  - intros [(I & Hm)|(I & Hp)]; auto.
+    destruct (pair_in (u, s) new) eqn:X; [now apply pair_in_iff|]. exfalso.
+    assert (In (u, s) gone) by (unfold gone; apply filter_In; rewrite X; auto).
+    assert (mem_str u (map fst gone) = true); [|congruence].
+    apply mem_str_iff. apply in_map_iff. exists (u, s). auto.
+  - intros I. destruct (pair_in (u, s) old) eqn:X; auto. left. apply pair_in_iff in X.
+    split; auto. destruct (mem_str u (map fst gone)) eqn:Y; auto. exfalso.
+    apply mem_str_iff, in_map_iff in Y as ([u0 s0] & Eu & Ig). simpl in Eu. subst u0.
+    unfold gone in Ig. apply filter_In in Ig as [Ig Hn].
+    assert (s0 = s) by (eapply UU; eauto). subst s0.
+    apply negb_true_iff in Hn. assert (pair_in (u, s) new = true) by now apply pair_in_iff.
+    congruence.
+Qed.
+
+(** ** The index determined by the file *)
+
+Lemma classify_toc_only p :
+  match classify p with
+  | PUser | PMetaDir _ _ | PMetaObj _ _ _ | PBad => True
+  | _ => in_toc p = true
+  end.
+Proof.
+  destruct (in_toc p) eqn:I; [now destruct (classify p)|].
+  unfold classify. destruct (split_res_spec p) as (S1 & S2 & S3).
+  destruct (split_res p) as [a b]. simpl in *.
+  destruct b as [|t r]; [now destruct a|].
+  destruct a as [|x a].
+  - simpl in S1. subst p. simpl in I. rewrite I.
+    destruct (meta_seg t); auto. destruct r as [|nm [|? ?]]; auto. now destruct (reserved_seg nm).
+  - destruct r as [|nm [|? ?]]; auto.
+    + now destruct (meta_seg t).
+    + now destruct (meta_seg t && negb (reserved_seg nm)).
+Qed.
+
+Lemma classify_link_inv p s u : classify p = PLink s u -> p = link_path s u.
+Proof.
+  intros H. pose proof (classify_toc_only p) as I. rewrite H in I.
+  apply in_toc_inv in I as (r & ->). rewrite classify_toc_eq in H.
+  pose proof (classify_toc_inv r) as C. rewrite H in C. now subst.
+Qed.
+
+Lemma classify_schema_inv p s : classify p = PSchema s -> p = schema_path s.
+Proof.
+  intros H. pose proof (classify_toc_only p) as I. rewrite H in I.
+  apply in_toc_inv in I as (r & ->). rewrite classify_toc_eq in H.
+  pose proof (classify_toc_inv r) as C. rewrite H in C. now subst.
+Qed.
+
+Lemma classify_package_inv p s : classify p = PPackage s -> p = package_path s.
+Proof.
+  intros H. pose proof (classify_toc_only p) as I. rewrite H in I.
+  apply in_toc_inv in I as (r & ->). rewrite classify_toc_eq in H.
+  pose proof (classify_toc_inv r) as C. rewrite H in C. now subst.
+Qed.
+
+Lemma in_load_links T u s : In (u, s) (load_links T) <-> In (link_path s u) (map fst T).
+Proof.
+  unfold load_links. rewrite in_flat_map, in_map_iff. split.
+  - intros (e & I & H). destruct (classify (fst e)) eqn:K; try (destruct H; fail).
+    destruct H as [H|[]]. inversion H; subst. apply classify_link_inv in K. eauto.
+  - intros (e & Ee & I). exists e. split; auto. rewrite Ee, classify_link. simpl. auto.
+Qed.
+
+Lemma in_load_schemas T s : In s (load_schemas T) <-> In (schema_path s) (map fst T).
+Proof.
+  unfold load_schemas. rewrite in_flat_map, in_map_iff. split.
+  - intros (e & I & H). destruct (classify (fst e)) eqn:K; try (destruct H; fail).
+    destruct H as [H|[]]. subst. apply classify_schema_inv in K. eauto.
+  - intros (e & Ee & I). exists e. split; auto. rewrite Ee, classify_schema. simpl. auto.
+Qed.
+
+Lemma in_load_pkgs T s : In s (load_pkgs T) <-> In (package_path s) (map fst T).
+Proof.
+  unfold load_pkgs. rewrite in_flat_map, in_map_iff. split.
+  - intros (e & I & H). destruct (classify (fst e)) eqn:K; try (destruct H; fail).
+    destruct H as [H|[]]. subst. apply classify_package_inv in K. eauto.
+  - intros (e & Ee & I). exists e. split; auto. rewrite Ee, classify_package. simpl. auto.
+Qed.
+
+Lemma link_path_inj s u s' u' : link_path s u = link_path s' u' -> s = s' /\ u = u'.
+Proof. intros H. inversion H. auto. Qed.
+
+Lemma load_links_nodup T :
+  NoDup (map fst T) -> UUL (load_links T) -> NoDup (map fst (load_links T)).
+Proof.
+  induction T as [|e T IH]; simpl; intros ND UU; [constructor|].
+  inversion ND as [|? ? Ne ND']; subst.
+  assert (UU' : UUL (load_links T)).
+  { intros u s1 s2 I1 I2. apply (UU u); unfold load_links; simpl; apply in_or_app; auto. }
+  unfold load_links. simpl. fold (load_links T).
+  destruct (classify (fst e)) eqn:K; simpl; auto.
+  constructor; auto. intros I. apply in_map_iff in I as ([u' s'] & Eu & I). simpl in Eu. subst u'.
+  assert (s' = s).
+  { apply (UU u); simpl; auto. }
+  subst s'. apply in_load_links in I. apply classify_link_inv in K. rewrite <- K in I. contradiction.
+Qed.
+
+Section Bridge.
+  Variables (E : env) (T : tree) (n : N) (pr : list (string * string)).
+  Hypothesis S : SyncRaw E T n pr.
+  Let M := objs T.
+
+  Lemma br_toc : TocOk E M T.
+  Proof. intros p I. apply (sr_tocok _ _ _ _ S p I). Qed.
+
+  Lemma br_link u s : In (u, s) (load_links T) <-> exists q, In q M /\ sch q = s /\ uid q = u.
+  Proof. rewrite in_load_links, <- t_has_keys. apply (has_link E M T s u br_toc). Qed.
+
+  Lemma br_schema s : t_has T (schema_path s) = true <-> exists u, In (u, s) (load_links T).
+  Proof.
+    rewrite (has_schema E M T s br_toc), uses_iff. split.
+    - intros (q & I & H). exists (uid q). apply br_link. eauto.
+    - intros (u & I). apply br_link in I as (q & I & H & _). eauto.
+  Qed.
+
+  Lemma br_package p :
+    t_has T (package_path p) = true <->
+    exists s, t_has T (schema_path s) = true /\ pkg_of E s = p.
+  Proof.
+    rewrite (has_package E M T p br_toc), needs_iff. split.
+    - intros (q & I & H). exists (sch q). split; auto.
+      rewrite (has_schema E M T _ br_toc). apply uses_iff. eauto.
+    - intros (s & Hs & H). rewrite (has_schema E M T _ br_toc) in Hs.
+      apply uses_iff in Hs as (q & I & <-). eauto.
+  Qed.
+
+  Lemma br_uul : UUL (load_links T).
+  Proof.
+    intros u s1 s2 I1 I2. apply br_link in I1 as (q1 & J1 & <- & U1).
+    apply br_link in I2 as (q2 & J2 & <- & U2).
+    assert (q1 = q2) by (apply (sraw_uniq E T n pr S); auto; congruence). now subst.
+  Qed.
+
+  Lemma ixl_of_ixok ix : IxOk E T ix -> IxL E (load_links T) ix.
+  Proof.
+    intros [A B C D1 D2 D3 D4 F G]. constructor.
+    - intros [u s]. rewrite A, in_load_links. apply t_has_keys.
+    - intros s. rewrite B. apply br_schema.
+    - intros p. rewrite C, br_package. split; intros (s & H1 & H2); exists s; split; auto;
+        now apply B.
+    - constructor; auto.
+      + intros p. apply Bool.eq_iff_eq_true. rewrite D1, existsb_exists. reflexivity.
+      + intros p. apply Bool.eq_iff_eq_true. apply D3.
+    - exact F.
+    - exact G.
+  Qed.
+
+  Lemma ixok_of_ixl ix : IxL E (load_links T) ix -> IxOk E T ix.
+  Proof.
+    intros [A B C [D1 D2 D3 D4] F G]. constructor; auto.
+    - intros u s. rewrite A, in_load_links. symmetry. apply t_has_keys.
+    - intros s. rewrite B. symmetry. apply br_schema.
+    - intros p. rewrite C, br_package. split; intros (s & H1 & H2); exists s; split; auto;
+        [apply br_schema, B|apply B, br_schema]; auto.
+    - intros p. rewrite D1, existsb_exists. reflexivity.
+    - intros p. now rewrite D2.
+  Qed.
+End Bridge.
+
+Lemma self_in_of E : env_ok E = true -> self_in E.
+Proof.
+  intros EO s. unfold in_path, path_of_schema. destruct (lookup_decl E s) as [d|] eqn:L.
+  - unfold lookup_decl in L. apply find_some in L as [L1 L2]. apply String.eqb_eq in L2.
+    unfold env_ok in EO. rewrite forallb_forall in EO. specialize (EO d L1). unfold decl_ok in EO.
+    repeat (apply andb_prop in EO as [EO ?]). apply String.eqb_eq in H0.
+    apply mem_str_iff. rewrite <- L2, <- H0. unfold last_seg.
+    destruct (d_path d) as [|x l] eqn:P.
+    + simpl in H0. rewrite <- H0 in H3. simpl in H3. discriminate.
+    + destruct (exists_last (l:=x :: l)) as (l' & y & ->); [discriminate|].
+      rewrite last_last. apply in_or_app. simpl. auto.
+  - simpl. now rewrite String.eqb_refl.
+Qed.
+
+Lemma path_closed_of E : env_ok E = true -> path_closed E.
+Proof.
+  intros EO s k H. unfold in_path, path_of_schema in *. destruct (lookup_decl E s) as [d|] eqn:L.
+  - unfold lookup_decl in L. apply find_some in L as [L1 L2].
+    unfold env_ok in EO. rewrite forallb_forall in EO. specialize (EO d L1). unfold decl_ok in EO.
+    apply andb_prop in EO as [_ EO]. rewrite forallb_forall in EO.
+    apply mem_str_iff in H. specialize (EO k H).
+    destruct (lookup_decl E k) as [dk|]; [|discriminate].
+    destruct (list_eq_dec string_dec (d_path dk) (prefix_upto k (d_path d))); [congruence|discriminate].
+  - simpl in H. rewrite orb_false_r in H. apply String.eqb_eq in H. subst k.
+    rewrite L. simpl. now rewrite String.eqb_refl.
+Qed.
+
+Lemma nodup_path_of E : env_ok E = true -> forall s, NoDup (path_of_schema E s).
+Proof.
+  intros EO s. unfold path_of_schema. destruct (lookup_decl E s) as [d|] eqn:L.
+  - unfold lookup_decl in L. apply find_some in L as [L1 _].
+    unfold env_ok in EO. rewrite forallb_forall in EO. specialize (EO d L1). unfold decl_ok in EO.
+    repeat (apply andb_prop in EO as [EO ?]). now apply nodup_strs_sound.
+  - constructor; auto. constructor.
+Qed.
+
+Lemma track_ok E T T' n pr n' pr' ix :
+  env_ok E = true -> SyncRaw E T n pr -> SyncRaw E T' n' pr' ->
+  IxOk E T ix -> IxOk E T' (track_gen true E T T' ix).
+Proof.
+  intros EO S S' H. apply (ixok_of_ixl E T' n' pr' S'). unfold track_gen.
+  apply track_ixl.
+  - now apply self_in_of.
+  - now apply path_closed_of.
+  - now apply nodup_path_of.
+  - now apply (ixl_of_ixok E T n pr S).
+  - apply (br_uul E T n pr S).
+  - apply load_links_nodup; [apply (sr_nodup _ _ _ _ S)|apply (br_uul E T n pr S)].
+Qed.
+
+(** ** [load] rebuilds the index the file determines; reopening *)
+
+Lemma pcok_empty E : PCOk E [] [] [].
+Proof. constructor; simpl; auto; try discriminate. intros p c. split; [intros []|intros ([] & _)]. Qed.
+
+Lemma pcok_fold E : forall S S0 P C,
+  self_in E -> path_closed E -> PCOk E S0 P C ->
+  PCOk E (S0 ++ S)
+       (fst (fold_left (fun PC s => upc_add s (path_of_schema E s) PC) S (P, C)))
+       (snd (fold_left (fun PC s => upc_add s (path_of_schema E s) PC) S (P, C))).
+Proof.
+  induction S as [|s S IH]; intros S0 P C SI PCl H; cbn [fold_left].
+  - now rewrite app_nil_r.
+  - pose proof (pcok_add E S0 P C s SI PCl H) as H1.
+    destruct (upc_add s (path_of_schema E s) (P, C)) as [P1 C1]. simpl in H1.
+    pose proof (IH _ _ _ SI PCl H1) as H2. now rewrite <- app_assoc in H2.
+Qed.
+
+Lemma sm_get_map_keys (g : string -> list string) l p :
+  sm_get (map (fun pk => (pk, g pk)) l) p = if mem_str p l then Some (g p) else None.
+Proof.
+  induction l as [|x l IH]; simpl; auto. rewrite (String.eqb_sym p x).
+  destruct (String.eqb x p) eqn:Z; simpl; auto. apply String.eqb_eq in Z. now subst.
+Qed.
+
+Lemma load_ixl E T n pr :
+  env_ok E = true -> SyncRaw E T n pr -> IxL E (load_links T) (load E T).
+Proof.
+  intros EO S. unfold load.
+  assert (HS : forall s, In s (load_schemas T) <-> exists u, In (u, s) (load_links T)).
+  { intros s. rewrite in_load_schemas, <- t_has_keys. apply (br_schema E T n pr S). }
+  assert (HP : forall p, In p (load_pkgs T) <->
+                         exists s, In s (load_schemas T) /\ pkg_of E s = p).
+  { intros p. rewrite in_load_pkgs, <- t_has_keys, (br_package E T n pr S). split;
+      intros (s & H1 & H2); exists s; split; auto.
+    - apply in_load_schemas. now apply t_has_keys.
+    - apply t_has_keys. now apply in_load_schemas. }
+  constructor; cbn [ix_links ix_schemas ix_parents ix_children ix_pkgs ix_used]; auto.
+  - reflexivity.
+  - apply (pcok_fold E (load_schemas T) [] [] []); [now apply self_in_of|now apply path_closed_of|].
+    apply pcok_empty.
+  - intros p. unfold sm_has. rewrite sm_get_map_keys. rewrite <- mem_str_iff.
+    destruct (mem_str p (load_pkgs T)); split; auto; discriminate.
+  - intros p s. unfold sm_val. rewrite sm_get_map_keys. destruct (mem_str p (load_pkgs T)) eqn:X.
+    + rewrite filter_In, String.eqb_eq. reflexivity.
+    + split; [intros []|]. intros (H1 & H2). exfalso.
+      assert (In p (load_pkgs T)) by (apply HP; eauto). apply mem_str_iff in H. congruence.
+Qed.
+
+Lemma existsb_set_eq (f : string -> bool) a b : set_eq a b -> existsb f a = existsb f b.
+Proof.
+  intros H. apply Bool.eq_iff_eq_true. rewrite !existsb_exists.
+  split; intros (x & I & F); exists x; split; auto; now apply H.
+Qed.
+
+Lemma ixl_same E L a b : IxL E L a -> IxL E L b -> ix_same a b.
+Proof.
+  intros [A1 B1 C1 [P1 Q1 R1 S1] F1 G1] [A2 B2 C2 [P2 Q2 R2 S2] F2 G2].
+  assert (SE : set_eq (ix_schemas a) (ix_schemas b)) by (intros s; now rewrite B1, B2).
+  assert (PE : set_eq (ix_pkgs a) (ix_pkgs b)).
+  { intros p. rewrite C1, C2. split; intros (s & H1 & H2); exists s; split; auto; now apply SE. }
+  assert (KE : forall p, sm_has (ix_parents a) p = sm_has (ix_parents b) p).
+  { intros p. rewrite P1, P2. now apply existsb_set_eq. }
+  constructor; auto.
+  - intros us. now rewrite A1, A2.
+  - intros p. pose proof (KE p) as K. unfold sm_has in K.
+    destruct (sm_get (ix_parents a) p) eqn:X, (sm_get (ix_parents b) p) eqn:Y; try discriminate; auto.
+    now rewrite (R1 _ _ X), (R2 _ _ Y).
+  - intros p. now rewrite Q1, Q2.
+  - intros p c. rewrite S1, S2. split; intros (H1 & H2); split; auto; now apply SE.
+  - intros p. apply Bool.eq_iff_eq_true. rewrite F1, F2. apply PE.
+  - intros p s. rewrite G1, G2. split; intros (H1 & H2); split; auto; now apply SE.
+Qed.
+
+Lemma reopen_same E st :
+  env_ok E = true -> Sync E st -> ix_same (load E (raw (cs st))) (mem st).
+Proof.
+  intros EO S. pose proof (raw_of_sync E st S) as R.
+  apply (ixl_same E (load_links (raw (cs st)))).
+  - now apply (load_ixl E _ _ _ EO R).
+  - apply (ixl_of_ixok E _ _ _ R). apply (sy_mem _ _ S).
+Qed.
+
+(** ** One step *)
+
+
+(** ** One step *)
+
+Lemma sync_same_cs E st st' :
+  Sync E st -> cs st' = cs st -> mem st' = mem st -> Sync E st'.
+Proof. intros [] Hc Hm. constructor; rewrite ?Hc, ?Hm; auto. Qed.
+
+Lemma sync_track E st c' r :
+  env_ok E = true -> Sync E st -> SyncRaw E (raw c') (next_id c') (prov c') ->
+  Sync E (mkss c' (track_gen true E (raw (cs st)) (raw c') (mem st)) r).
+Proof.
+  intros EO S R. apply sync_of_raw; simpl; auto.
+  eapply track_ok; eauto. apply (raw_of_sync E st S). apply (sy_mem _ _ S).
+Qed.
+
+Lemma keep_last_nonempty (l : list string) :
+  last_seg (filter keep_seg l) <> "" \/ filter keep_seg l = [].
+Proof.
+  induction l as [|x l IH]; simpl; auto.
+  destruct (keep_seg x) eqn:K; auto. left.
+  assert (Nx : x <> "").
+  { unfold keep_seg in K. apply andb_prop in K as [K _]. apply negb_true_iff in K.
+    now apply String.eqb_neq in K. }
+  unfold last_seg in *. destruct (filter keep_seg l) as [|y l'] eqn:F; simpl; auto.
+  destruct IH as [IH|IH]; [exact IH|discriminate].
+Qed.
+
+Lemma resolve_last node : last_seg (resolve [] node) <> "" \/ resolve [] node = [].
+Proof. unfold resolve, norm_segs. destruct (is_abs node); simpl; apply keep_last_nonempty. Qed.
+
+Lemma guard_user_res node : guard node = false -> has_reserved (resolve [] node) = false.
+Proof. intros H. apply guard_user0 in H. unfold user_path in H. now apply negb_true_iff in H. Qed.
+
+Lemma sync_attach E st node schema v valid :
+  env_ok E = true -> Sync E st -> Sync E (fst (s_attach true E st node schema v valid)).
+Proof.
+  intros EO S. unfold s_attach.
+  destruct (guard node) eqn:Gd; [exact S|]. destruct (ro st); [exact S|].
+  destruct (t_get (raw (cs st)) (resolve [] node)) as [o|] eqn:G; [|exact S].
+  destruct (has_obj_of _ _ schema) eqn:HO; [exact S|].
+  destruct (lookup_decl E schema) as [d|] eqn:LD; [|exact S].
+  destruct (d_aux d); [exact S|]. destruct valid; [|exact S]. simpl negb. cbv iota.
+  destruct (export_fails _ d); [exact S|].
+  pose proof (attach_raw E (cs st) (resolve [] node) schema v d o EO (raw_of_sync E st S)
+                         (guard_user_res node Gd) (resolve_last node) G LD HO) as R.
+  destruct (c_attach (cs st) (resolve [] node) schema (d_pkg d) v) as [c' r]. simpl in *.
+  now apply sync_track.
+Qed.
+
+Definition RawStep (E : env) (st : sstate) (co : cop) : Prop :=
+  SyncRaw E (raw (fst (c_step (cs st) co))) (next_id (fst (c_step (cs st) co)))
+          (prov (fst (c_step (cs st) co))).
+
+Lemma sync_sop E st co :
+  env_ok E = true -> Sync E st ->
+  (forall node schema pkg v, co <> CAttach node schema pkg v) ->
+  RawStep E st co -> Sync E (fst (s_step E st (SOp co))).
+Proof.
+  intros EO S NA R. unfold s_step, s_step_gen.
+  destruct co; try (exfalso; eapply NA; reflexivity);
+    (destruct (ro st && mutating _); [exact S|];
+     unfold RawStep in R; destruct (c_step (cs st) _) as [c' r]; simpl in *;
+     now apply sync_track).
+Qed.
+
+Lemma raw_step_same E st co :
+  Sync E st -> fst (c_step (cs st) co) = cs st -> RawStep E st co.
+Proof. intros S H. unfold RawStep. rewrite H. apply (raw_of_sync E st S). Qed.
+
+Lemma raw_step_detach E st node schema :
+  env_ok E = true -> Sync E st -> RawStep E st (CDetach node schema).
+Proof.
+  intros EO S. unfold RawStep, c_step, c_step_gen.
+  destruct (guard node) eqn:Gd; [apply (raw_of_sync E st S)|].
+  apply detach_raw; auto. apply (raw_of_sync E st S). now apply guard_user_res.
+Qed.
+
+Lemma c_get_same st cwd p : fst (c_step st (CGet cwd p)) = st.
+Proof.
+  unfold c_step, c_step_gen. destruct (guard cwd); auto. destruct (enter (raw st) cwd); auto.
+  destruct (guard p); auto. destruct (t_has (raw st) _); auto.
+Qed.
+
+Lemma sync_reopen E st r : env_ok E = true -> Sync E st -> Sync E (fst (s_step E st (SReopen r))).
+Proof.
+  intros EO S. simpl. apply sync_of_raw; simpl.
+  - apply (raw_of_sync E st S).
+  - apply (ixok_of_ixl E _ _ _ (raw_of_sync E st S)).
+    apply (load_ixl E _ _ _ EO (raw_of_sync E st S)).
+Qed.
+
+(** A refused operation ([RGuard], [RFail]) leaves the file as it was. *)
+Lemma lift_refused st r : snd (lift st r) <> ROk -> fst (lift st r) = st.
+Proof. destruct r; simpl; auto. intros H. now contradiction H. Qed.
+
+(** ** Data operations that only add or relabel user nodes *)
+
+Lemma frame_raw E T T' n pr :
+  SyncRaw E T n pr ->
+  NoDup (map fst T') ->
+  objs T' = objs T ->
+  (forall p, has_reserved p = true -> t_get T' p = t_get T p) ->
+  (forall p x, t_get T p = Some x ->
+               exists x', t_get T' p = Some x' /\ okind x' = okind x \/
+                          (exists v v', okind x = KData v /\ okind x' = KData v' /\ t_get T' p = Some x')) ->
+  (forall p o, has_reserved p = false -> t_get T' p = Some o ->
+               match p with [] => is_group (Some o) | _ => is_group (t_get T' (parent p)) end = true) ->
+  SyncRaw E T' n pr.
+Proof.
+  intros S ND HO HR HK HP.
+  assert (KG : forall p, is_group (t_get T p) = true -> is_group (t_get T' p) = true).
+  { intros p H. destruct (t_get T p) as [x|] eqn:G; [|discriminate].
+    destruct (HK p x G) as (x' & [(G' & K)|(v & v' & K1 & K2 & G')]); rewrite G'.
+    - destruct x as [[|?] ?], x' as [[|?] ?]; simpl in *; auto; discriminate.
+    - destruct x as [[|?] ?]; simpl in *; discriminate. }
+  assert (KD : forall p, is_data (t_get T p) = true -> is_data (t_get T' p) = true).
+  { intros p H. destruct (t_get T p) as [x|] eqn:G; [|discriminate].
+    destruct (HK p x G) as (x' & [(G' & K)|(v & v' & K1 & K2 & G')]); rewrite G'.
+    - destruct x as [[|?] ?], x' as [[|?] ?]; simpl in *; auto; discriminate.
+    - destruct x' as [[|?] ?]; simpl in *; auto; discriminate. }
+  assert (KH : forall p, t_has T p = true -> t_has T' p = true).
+  { intros p H. unfold t_has in *. destruct (t_get T p) as [x|] eqn:G; [|discriminate].
+    destruct (HK p x G) as (x' & [(G' & K)|(v & v' & K1 & K2 & G')]); now rewrite G'. }
+  constructor; auto.
+  - apply KG, (sr_root _ _ _ _ S).
+  - intros p o G. destruct (has_reserved p) eqn:R.
+    + rewrite (HR p R) in G. pose proof (sr_entries _ _ _ _ S p o G) as C.
+      unfold chk_entry in *. apply andb_prop in C as [C1 C2]. apply andb_true_intro. split.
+      * destruct p; auto.
+      * destruct (classify p) eqn:K; auto.
+        -- apply andb_prop in C2 as [C2 C4]. apply andb_prop in C2 as [C2 C3]. rewrite C2. simpl.
+           apply andb_true_intro. split.
+           ++ unfold owner_ok in *. destruct (String.eqb _ ""); auto.
+           ++ apply has_children_iff in C4 as (c & H1 & H2). apply has_children_iff. eauto.
+        -- now rewrite HO.
+    + unfold chk_entry. rewrite (classify_user p R), andb_true_r. now apply HP.
+  - intros p I. rewrite HO, (HR p (in_toc_reserved p I)). apply (sr_tocok _ _ _ _ S p I).
+  - intros q I. rewrite HO in I. apply (sr_prov _ _ _ _ S q I).
+Qed.
+
+Lemma user_prefix a b : is_prefix a b = true -> has_reserved b = false -> has_reserved a = false.
+Proof.
+  intros P H. rewrite (is_prefix_split a b P), has_reserved_app in H. now apply orb_false_iff in H as [H _].
+Qed.
+
+Record Grow (T T' : tree) : Prop := mk_grow {
+  gr_mono : forall p x, t_get T p = Some x -> t_get T' p = Some x;
+  gr_new : forall p o, t_get T' p = Some o ->
+                       t_get T p = Some o \/
+                       (t_get T p = None /\ has_reserved p = false /\ p <> [] /\
+                        is_group (t_get T' (parent p)) = true);
+  gr_nodup : NoDup (map fst T) -> NoDup (map fst T');
+  gr_objs : objs T' = objs T
+}.
+
+Lemma grow_refl T : Grow T T.
+Proof. constructor; auto. Qed.
+
+Lemma grow_trans A B C : Grow A B -> Grow B C -> Grow A C.
+Proof.
+  intros [M1 N1 D1 O1] [M2 N2 D2 O2]. constructor; auto.
+  - intros p o G. destruct (N2 p o G) as [G1|(G1 & R & NE & PG)].
+    + destruct (N1 p o G1) as [G0|(G0 & R & NE & PG)]; auto. right. repeat split; auto.
+      destruct (t_get B (parent p)) eqn:X; [|discriminate]. now rewrite (M2 _ _ X).
+    + right. repeat split; auto. destruct (t_get A p) eqn:X; auto. apply M1 in X. congruence.
+  - congruence.
+Qed.
+
+Lemma grow_put T p o :
+  t_has T p = false -> has_reserved p = false -> p <> [] -> is_group (t_get T (parent p)) = true ->
+  Grow T (t_put T p o).
+Proof.
+  intros A U NE PG. constructor.
+  - intros q x G. now rewrite t_get_put, G.
+  - intros q x G. rewrite t_get_put in G. destruct (t_get T q) eqn:X; auto.
+    destruct (path_eqb p q) eqn:Z; [|discriminate]. apply path_eqb_eq in Z. subst q.
+    right. repeat split; auto. rewrite t_get_put.
+    destruct (t_get T (parent p)); [auto|discriminate].
+  - intros ND. now apply nodup_put.
+  - rewrite objs_put. unfold is_obj_path. rewrite (classify_user p U). apply app_nil_r.
+Qed.
+
+Lemma mkgroups_grow : forall rest T base T',
+  mkgroups_from T base rest = Some T' -> is_group (t_get T base) = true ->
+  has_reserved (base ++ rest) = false ->
+  Grow T T' /\ is_group (t_get T' (base ++ rest)) = true.
+Proof.
+  induction rest as [|s r IH]; intros T base T' H G U; simpl in H.
+  - inversion H; subst. rewrite app_nil_r. split; auto. apply grow_refl.
+  - assert (E1 : base ++ s :: r = (base ++ [s]) ++ r) by now rewrite <- app_assoc.
+    assert (U1 : has_reserved (base ++ [s]) = false).
+    { rewrite E1, has_reserved_app in U. now apply orb_false_iff in U as [U _]. }
+    destruct (t_get T (base ++ [s])) as [[[|v] a]|] eqn:X; try discriminate.
+    + rewrite E1. apply (IH T (base ++ [s]) T' H); [now rewrite X|now rewrite <- E1].
+    + assert (GP : Grow T (t_put T (base ++ [s]) new_group)).
+      { apply grow_put; auto.
+        - unfold t_has. now rewrite X.
+        - apply app1_nonempty.
+        - now rewrite parent_app1. }
+      destruct (IH _ (base ++ [s]) T' H) as [G2 G3].
+      * rewrite t_get_put, X, path_eqb_refl. reflexivity.
+      * now rewrite <- E1.
+      * rewrite E1. split; auto. eapply grow_trans; eauto.
+Qed.
+
+Lemma grow_frame E T T' n pr : SyncRaw E T n pr -> Grow T T' -> SyncRaw E T' n pr.
+Proof.
+  intros S [M N D O]. apply (frame_raw E T T' n pr S); auto.
+  - apply D, (sr_nodup _ _ _ _ S).
+  - intros p R. destruct (t_get T p) eqn:X; [now apply M|].
+    destruct (t_get T' p) eqn:Y; auto. destruct (N p o Y) as [G|(_ & R' & _)]; congruence.
+  - intros p x G. exists x. left. auto.
+  - intros p o U G. destruct (N p o G) as [G0|(G0 & _ & NE & PG)].
+    + pose proof (sr_entries _ _ _ _ S p o G0) as C. unfold chk_entry in C.
+      apply andb_prop in C as [C _]. destruct p; auto.
+      destruct (t_get T (parent (s :: p))) eqn:X; [|discriminate]. now rewrite (M _ _ X).
+    + destruct p; [contradiction|auto].
+Qed.
+
+Lemma upd_frame E T q f n pr :
+  SyncRaw E T n pr -> has_reserved q = false ->
+  (forall o, okind (f o) = okind o) -> SyncRaw E (t_upd T q f) n pr.
+Proof.
+  intros S U K. apply (frame_raw E T _ n pr S).
+  - apply nodup_upd, (sr_nodup _ _ _ _ S).
+  - apply objs_upd.
+  - intros p R. rewrite t_get_upd. destruct (path_eqb p q) eqn:Z; auto.
+    apply path_eqb_eq in Z. congruence.
+  - intros p x G. rewrite t_get_upd, G. destruct (path_eqb p q); simpl; eauto.
+  - intros p o Up G. rewrite t_get_upd in G.
+    assert (G0 : exists o0, t_get T p = Some o0 /\ okind o = okind o0).
+    { destruct (path_eqb p q); eauto. destruct (t_get T p) as [o0|]; [|discriminate].
+      simpl in G. inversion G. eauto. }
+    destruct G0 as (o0 & G0 & Ko). pose proof (sr_entries _ _ _ _ S p o0 G0) as C.
+    unfold chk_entry in C. apply andb_prop in C as [C _]. destruct p.
+    + destruct o as [[|?] ?], o0 as [[|?] ?]; simpl in *; auto; discriminate.
+    + rewrite t_get_upd. destruct (path_eqb (parent (s :: p)) q); auto.
+      destruct (t_get T (parent (s :: p))) as [g|]; [|discriminate]. simpl.
+      specialize (K g). destruct g as [[|?] ?], (f _) as [[|?] ?]; simpl in *; auto; discriminate.
+Qed.
+
+Lemma mkgroups_only_prefixes : forall rest T base T',
+  mkgroups_from T base rest = Some T' ->
+  forall p, t_get T p = None -> t_has T' p = true -> is_prefix p (base ++ rest) = true.
+Proof.
+  induction rest as [|s r IH]; intros T base T' H p G0 G1; simpl in H.
+  - inversion H; subst. unfold t_has in G1. now rewrite G0 in G1.
+  - assert (E1 : base ++ s :: r = (base ++ [s]) ++ r) by now rewrite <- app_assoc.
+    destruct (t_get T (base ++ [s])) as [[[|v] a]|] eqn:X; try discriminate.
+    + rewrite E1. apply (IH T (base ++ [s]) T' H); auto.
+    + destruct (list_eq_dec string_dec p (base ++ [s])) as [->|Np].
+      * rewrite E1. apply is_prefix_app.
+      * rewrite E1. apply (IH _ (base ++ [s]) T' H); auto.
+        rewrite t_get_put, G0. destruct (path_eqb (base ++ [s]) p) eqn:Z; auto.
+        apply path_eqb_eq in Z. congruence.
+Qed.
+
+Lemma not_prefix_longer (q : path) : q <> [] -> is_prefix q (parent q) = false.
+Proof.
+  intros NE. destruct (is_prefix q (parent q)) eqn:P; auto.
+  apply is_prefix_length in P. destruct (exists_last NE) as (l & x & ->).
+  rewrite parent_app1, app_length in P. simpl in P. lia.
+Qed.
+
+Lemma create_group_raw E T n pr q T' :
+  SyncRaw E T n pr -> has_reserved q = false -> u_create_group T q = Some T' -> SyncRaw E T' n pr.
+Proof.
+  intros S U H. unfold u_create_group in H. destruct q as [|a q]; [discriminate|].
+  destruct (t_has T (a :: q)); [discriminate|]. unfold t_mkgroups in H.
+  destruct (mkgroups_grow _ _ _ _ H (sr_root _ _ _ _ S) U) as [G _]. now apply (grow_frame E T).
+Qed.
+
+Lemma require_group_raw E T n pr q T' :
+  SyncRaw E T n pr -> has_reserved q = false -> u_require_group T q = Some T' -> SyncRaw E T' n pr.
+Proof.
+  intros S U H. unfold u_require_group in H. destruct (t_get T q) as [[[|v] a]|].
+  - inversion H; now subst.
+  - discriminate.
+  - unfold t_mkgroups in H.
+    destruct (mkgroups_grow _ _ _ _ H (sr_root _ _ _ _ S) U) as [G _]. now apply (grow_frame E T).
+Qed.
+
+Lemma create_dataset_raw E T n pr q v T' :
+  SyncRaw E T n pr -> has_reserved q = false -> u_create_dataset T q v = Some T' ->
+  SyncRaw E T' n pr.
+Proof.
+  intros S U H. unfold u_create_dataset in H. destruct q as [|a q]; [discriminate|].
+  set (qq := a :: q) in *. destruct (t_has T qq) eqn:A; [discriminate|].
+  destruct (t_mkgroups T (parent qq)) as [T1|] eqn:MK; [|discriminate]. inversion H; subst T'.
+  unfold t_mkgroups in MK.
+  assert (Up : has_reserved (parent qq) = false).
+  { apply (user_prefix (parent qq) qq); auto. apply is_prefix_parent. discriminate. }
+  destruct (mkgroups_grow _ _ _ _ MK (sr_root _ _ _ _ S) Up) as [G PG]. simpl in PG.
+  apply (grow_frame E T); auto. eapply grow_trans; [exact G|]. apply grow_put; auto.
+  - destruct (t_has T1 qq) eqn:X; auto. exfalso.
+    pose proof (mkgroups_only_prefixes _ _ _ _ MK qq) as P.
+    unfold t_has in A. destruct (t_get T qq); [discriminate|]. specialize (P eq_refl X).
+    change ([] ++ parent qq) with (parent qq) in P.
+    rewrite (not_prefix_longer qq) in P; discriminate.
+  - discriminate.
+Qed.
+
+Lemma require_dataset_raw E T n pr q v T' :
+  SyncRaw E T n pr -> has_reserved q = false -> u_require_dataset T q v = Some T' ->
+  SyncRaw E T' n pr.
+Proof.
+  intros S U H. unfold u_require_dataset in H. destruct (t_get T q) as [[[|v0] a]|].
+  - discriminate.
+  - inversion H; now subst.
+  - eapply create_dataset_raw; eauto.
+Qed.
+
+Lemma attr_set_raw E T n pr q k v T' :
+  SyncRaw E T n pr -> has_reserved q = false -> u_attr_set T q k v = Some T' -> SyncRaw E T' n pr.
+Proof.
+  intros S U H. unfold u_attr_set in H. destruct (t_has T q); [|discriminate].
+  inversion H; subst. now apply upd_frame.
+Qed.
+
+Lemma attr_del_raw E T n pr q k T' :
+  SyncRaw E T n pr -> has_reserved q = false -> u_attr_del T q k = Some T' -> SyncRaw E T' n pr.
+Proof.
+  intros S U H. unfold u_attr_del in H. destruct (t_get T q); [|discriminate].
+  destruct (a_has _ k); [|discriminate]. inversion H; subst. now apply upd_frame.
+Qed.
+
+Lemma raw_lift E st X :
+  SyncRaw E (raw st) (next_id st) (prov st) ->
+  (forall T', X = Some T' -> SyncRaw E T' (next_id st) (prov st)) ->
+  SyncRaw E (raw (fst (lift st X))) (next_id (fst (lift st X))) (prov (fst (lift st X))).
+Proof. intros S H. destruct X as [T'|]; simpl; auto. Qed.
+
+Lemma enter_user T cwd c :
+  guard cwd = false -> enter T cwd = Some c -> has_reserved c = false.
+Proof.
+  intros G H. unfold enter in H. destruct (is_group _); [|discriminate]. inversion H; subst.
+  now apply guard_user_res.
+Qed.
+
+Lemma resolve_user c p : has_reserved c = false -> guard p = false -> has_reserved (resolve c p) = false.
+Proof. intros Hc Hp. now apply guard_resolve. Qed.
+
+Ltac data_step S lem :=
+  unfold RawStep, c_step, c_step_gen;
+  match goal with
+  | |- context [guard ?cwd] =>
+      destruct (guard cwd) eqn:Gc; [apply (raw_of_sync _ _ S)|];
+      match goal with
+      | |- context [enter ?T cwd] =>
+          destruct (enter T cwd) as [c|] eqn:En; [|apply (raw_of_sync _ _ S)];
+          match goal with
+          | |- context [guard ?p] =>
+              destruct (guard p) eqn:Gp; [apply (raw_of_sync _ _ S)|];
+              apply raw_lift; [apply (raw_of_sync _ _ S)|];
+              intros T' HT'; eapply lem; [apply (raw_of_sync _ _ S)| |exact HT'];
+              apply resolve_user; [apply (enter_user _ cwd c Gc En)|exact Gp]
+          end
+      end
+  end.
+
+Lemma raw_step_create_group E st cwd p : Sync E st -> RawStep E st (CCreateGroup cwd p).
+Proof. intros S. data_step S create_group_raw. Qed.
+Lemma raw_step_require_group E st cwd p : Sync E st -> RawStep E st (CRequireGroup cwd p).
+Proof. intros S. data_step S require_group_raw. Qed.
+Lemma raw_step_create_dataset E st cwd p v : Sync E st -> RawStep E st (CCreateDataset cwd p v).
+Proof. intros S. data_step S create_dataset_raw. Qed.
+Lemma raw_step_require_dataset E st cwd p v : Sync E st -> RawStep E st (CRequireDataset cwd p v).
+Proof. intros S. data_step S require_dataset_raw. Qed.
+Lemma raw_step_setitem E st cwd p v : Sync E st -> RawStep E st (CSetItem cwd p v).
+Proof. intros S. data_step S create_dataset_raw. Qed.
+Lemma raw_step_attr_set E st cwd p k v : Sync E st -> RawStep E st (CAttrSet cwd p k v).
+Proof. intros S. data_step S attr_set_raw. Qed.
+Lemma raw_step_attr_del E st cwd p k : Sync E st -> RawStep E st (CAttrDel cwd p k).
+Proof. intros S. data_step S attr_del_raw. Qed.
+
+(** ** Refused operations change nothing *)
+
+Definition refused (r : res) : bool := match r with RGuard | RFail => true | _ => false end.
+
+Lemma lift_ref st X : refused (snd (lift st X)) = true -> fst (lift st X) = st.
+Proof. destruct X; simpl; auto; discriminate. Qed.
+
+Lemma fixups_not_refused st o T1 s d wm : refused (snd (c_copy_fixups st o T1 s d wm)) = false.
+Proof.
+  unfold c_copy_fixups. destruct (okind o); destruct wm; simpl; auto.
+  - destruct (reuuid_region _ _ _ _). reflexivity.
+  - destruct (t_has T1 _); simpl; auto. destruct (reuuid_region _ _ _ _). reflexivity.
+Qed.
+
+Lemma c_copy_ref st o s d wm : refused (snd (c_copy st o s d wm)) = true -> fst (c_copy st o s d wm) = st.
+Proof.
+  unfold c_copy. destruct (u_copy (raw st) s d); simpl; auto.
+  now rewrite fixups_not_refused.
+Qed.
+
+Lemma c_step_refused st o : refused (snd (c_step st o)) = true -> fst (c_step st o) = st.
+Proof.
+  destruct o; unfold c_step, c_step_gen;
+    repeat match goal with
+           | |- context [if guard ?x then _ else _] => destruct (guard x); simpl; auto
+           | |- context [match enter ?T ?x with _ => _ end] => destruct (enter T x); simpl; auto
+           | |- context [match t_get ?T ?x with _ => _ end] => destruct (t_get T x) eqn:?; simpl; auto
+           | |- context [if name_guard ?x then _ else _] => destruct (name_guard x); simpl; auto
+           end;
+    try apply lift_ref; try apply c_copy_ref.
+  - (* delete *) unfold c_delete. destruct (t_get (raw st) _) as [[[|?] ?]|]; apply lift_ref.
+  - (* move *) unfold c_move. destruct (u_move _ _ _); simpl; auto.
+    destruct (t_get (raw st) _) as [[[|?] ?]|]; simpl; discriminate.
+  - (* get *) destruct (t_has _ _); auto.
+  - (* attach *) unfold c_attach. destruct (t_get (raw st) _); simpl; auto.
+    destruct (existsb _ _); simpl; auto. discriminate.
+  - (* detach *) unfold c_detach. destruct (t_get (raw st) _); simpl; auto.
+    destruct (find _ _); simpl; auto. discriminate.
+Qed.
+
+Lemma raw_step_refused E st co :
+  Sync E st -> refused (snd (c_step (cs st) co)) = true -> RawStep E st co.
+Proof. intros S H. apply raw_step_same; auto. now apply c_step_refused. Qed.
+
+(** ** The step theorem, assembled *)
+
+Definition is_heavy (o : sop) : bool :=
+  match o with
+  | SOp (CDelete _ _) | SOp (CMove _ _ _) | SOp (CCopy _ _ _ _) | SOp (CCopyInto _ _ _ _ _) => true
+  | _ => false
+  end.
+
+Lemma raw_step_light E st co :
+  env_ok E = true -> Sync E st -> is_heavy (SOp co) = false ->
+  (forall node schema pkg v, co <> CAttach node schema pkg v) -> RawStep E st co.
+Proof.
+  intros EO S H NA. destruct co; try discriminate.
+  - now apply raw_step_create_group.
+  - now apply raw_step_require_group.
+  - now apply raw_step_create_dataset.
+  - now apply raw_step_require_dataset.
+  - now apply raw_step_setitem.
+  - now apply raw_step_attr_set.
+  - now apply raw_step_attr_del.
+  - apply raw_step_same; auto. apply c_get_same.
+  - exfalso. eapply NA. reflexivity.
+  - now apply raw_step_detach.
+Qed.
+
+Lemma sync_step_light E st o :
+  env_ok E = true -> Sync E st -> is_heavy o = false -> Sync E (fst (s_step E st o)).
+Proof.
+  intros EO S H. destruct o as [co|node schema v valid|r|].
+  - destruct co; try (apply sync_sop; auto; try discriminate; apply raw_step_light; auto; discriminate).
+    unfold s_step, s_step_gen. now apply sync_attach.
+  - unfold s_step, s_step_gen. now apply sync_attach.
+  - now apply sync_reopen.
+  - exact S.
+Qed.
+
+(** Delete, move and copy: the file part is shown separately ([RawStep]); given it, the
+    whole state is in sync again.  Refused calls always satisfy it. *)
+Lemma sync_step_heavy E st co :
+  env_ok E = true -> Sync E st -> is_heavy (SOp co) = true -> RawStep E st co ->
+  Sync E (fst (s_step E st (SOp co))).
+Proof. intros EO S H R. apply sync_sop; auto. intros ? ? ? ? ->. discriminate. Qed.
+
+Lemma c_attach_refused c n schema pkg v :
+  refused (snd (c_attach c n schema pkg v)) = true -> fst (c_attach c n schema pkg v) = c.
+Proof.
+  unfold c_attach. destruct (t_get (raw c) n); simpl; auto.
+  destruct (existsb _ _); simpl; auto. discriminate.
+Qed.
+
+Lemma s_attach_refused E st node schema v valid :
+  refused (snd (s_attach true E st node schema v valid)) = true ->
+  cs (fst (s_attach true E st node schema v valid)) = cs st.
+Proof.
+  unfold s_attach. destruct (guard node); simpl; auto. destruct (ro st); simpl; auto.
+  destruct (t_get _ _); simpl; auto. destruct (has_obj_of _ _ _); simpl; auto.
+  destruct (lookup_decl E schema) as [d|]; simpl; auto. destruct (d_aux d); simpl; auto.
+  destruct valid; simpl; auto. destruct (export_fails _ d); simpl; auto.
+  pose proof (c_attach_refused (cs st) (resolve [] node) schema (d_pkg d) v) as X.
+  destruct (c_attach _ _ _ _ _) as [c' r]. simpl in *. auto.
+Qed.
+
+Lemma s_step_refused_same E st o :
+  refused (snd (s_step E st o)) = true -> cs (fst (s_step E st o)) = cs st.
+Proof.
+  destruct o as [co|node schema v valid|r|]; try (simpl; discriminate).
+  - destruct co; try apply s_attach_refused;
+      (unfold s_step, s_step_gen; destruct (ro st && _); [simpl; auto|];
+       match goal with |- context [c_step ?c ?o] =>
+         pose proof (c_step_refused c o) as X; destruct (c_step c o) as [c' r]; simpl in *; auto end).
+  - apply s_attach_refused.
+Qed.
+
+(** ** Histories *)
+
+Fixpoint raw_steps_ok (E : env) (st : sstate) (ops : list sop) : Prop :=
+  match ops with
+  | [] => True
+  | o :: r =>
+      match o with
+      | SOp co => is_heavy o = true -> RawStep E st co
+      | _ => True
+      end /\ raw_steps_ok E (fst (s_step E st o)) r
+  end.
+
+Lemma sync_step_any E st o :
+  env_ok E = true -> Sync E st ->
+  match o with SOp co => is_heavy o = true -> RawStep E st co | _ => True end ->
+  Sync E (fst (s_step E st o)).
+Proof.
+  intros EO S H. destruct (is_heavy o) eqn:Hv.
+  - destruct o as [co| | |]; try discriminate. apply sync_step_heavy; auto.
+  - now apply sync_step_light.
+Qed.
+
+Lemma sync_run E : forall ops st,
+  env_ok E = true -> Sync E st -> raw_steps_ok E st ops -> Sync E (s_run E st ops).
+Proof.
+  induction ops as [|o ops IH]; intros st EO S H; simpl; auto.
+  destruct H as [H1 H2]. apply IH; auto. now apply sync_step_any.
+Qed.
+
+Lemma light_steps_ok E : forall ops st,
+  forallb (fun o => negb (is_heavy o)) ops = true -> raw_steps_ok E st ops.
+Proof.
+  induction ops as [|o ops IH]; intros st H; simpl; auto. simpl in H.
+  apply andb_prop in H as [H1 H2]. apply negb_true_iff in H1. split; auto.
+  destruct o; auto. intros X. congruence.
+Qed.
+
+Lemma sync_run_light E ops :
+  env_ok E = true -> forallb (fun o => negb (is_heavy o)) ops = true ->
+  Sync E (s_run E init_ss ops).
+Proof. intros EO H. apply sync_run; auto. apply sync_init. now apply light_steps_ok. Qed.
+
+(** The file part can be discharged by running the checker. *)
+Lemma raw_step_checked E st co :
+  (let c' := fst (c_step (cs st) co) in syncb_raw E (raw c') (next_id c') (prov c') = true) ->
+  RawStep E st co.
+Proof. intros H. apply syncb_raw_sound. exact H. Qed.
+
+(** ** Witnesses *)
+
+Definition E0 : env :=
+  [mkdecl "c06.aa__0.1.0" "c06-pkg__0.1.0" ["c06.aa__0.1.0"] false 0;
+   mkdecl "c06.bb__0.1.0" "c06-pkg__0.1.0" ["c06.aa__0.1.0"; "c06.bb__0.1.0"] false 0;
+   mkdecl "c06.cc__0.1.0" "c06-pkg__0.1.0"
+          ["c06.aa__0.1.0"; "c06.bb__0.1.0"; "c06.cc__0.1.0"] false 0;
+   mkdecl "c06.ff__0.1.0" "c06-pkg__0.1.0" ["c06.ff__0.1.0"] false 1;
+   mkdecl "c06.pp__0.1.0" "c06-pkg__0.1.0" ["c06.pp__0.1.0"] false 2].
+
+Lemma E0_ok : env_ok E0 = true.
+Proof. vm_compute. reflexivity. Qed.
+
+Definition ops_chain : list sop :=
+  [SOp (CSetItem "/" "x" "1"); SOp (CSetItem "/" "y" "2");
+   SAttach "/x" "c06.bb__0.1.0" "0" true; SAttach "/y" "c06.cc__0.1.0" "0" true;
+   SOp (CDetach "/x" "c06.bb__0.1.0")].
+
+(** Non-vacuity: a reachable state that is in sync and does carry metadata. *)
+Lemma example_in_sync :
+  Sync E0 (s_run E0 init_ss ops_chain) /\
+  t_has (raw (cs (s_run E0 init_ss ops_chain))) (link_path "c06.cc__0.1.0" "u1") = true.
+Proof. split; [apply sync_run_light; reflexivity|vm_compute; reflexivity]. Qed.
+
+(** A history with delete, move and copy, the file part discharged by the checker. *)
+Definition ops_heavy : list sop :=
+  [SOp (CCreateGroup "/" "g"); SOp (CSetItem "/" "g/x" "1");
+   SAttach "/g/x" "c06.bb__0.1.0" "0" true; SAttach "/g" "c06.aa__0.1.0" "1" true;
+   SOp (CCopy "/" "g" "h" false); SOp (CMove "/" "g/x" "z"); SOp (CCopy "/" "h" "k" true);
+   SOp (CCopy "/" "z" "z2" false); SOp (CDelete "/" "g"); SOp (CDelete "/" "z"); SReopen false].
+
+Lemma example_heavy_in_sync : Sync E0 (s_run E0 init_ss ops_heavy).
+Proof.
+  apply sync_run; [reflexivity|apply sync_init|].
+  repeat (split; [try exact I; try (intros _; apply raw_step_checked; vm_compute; reflexivity);
+                  try discriminate|]).
+  exact I.
+Qed.
+
+(** Pinned [_set_raw]: the object is stored before [register]; a failing export leaves an
+    object no link points at. *)
+Lemma attach_pinned_refuted :
+  exists E st o, env_ok E = true /\ Sync E st /\ ~ Sync E (fst (s_step_pinned E st o)).
+Proof.
+  exists E0, init_ss, (SAttach "/" "c06.ff__0.1.0" "0" true). split; [reflexivity|].
+  split; [apply sync_init|]. intros H.
+  pose proof (sy_tocok _ _ H (link_path "c06.ff__0.1.0" "u0") eq_refl) as X.
+  vm_compute in X. discriminate.
+Qed.
+
+Definition s_run_pinned (E : env) (st : sstate) (ops : list sop) : sstate :=
+  fold_left (fun st o => fst (s_step_pinned E st o)) ops st.
+
+(** Pinned [_update_parents_children(ref, None)]: the children set of a parent that is not
+    itself in use keeps the removed schema; the rebuilt index does not have it. *)
+Lemma children_pinned_refuted :
+  exists E ops, env_ok E = true /\
+    ~ ix_same (load E (raw (cs (s_run_pinned E init_ss ops)))) (mem (s_run_pinned E init_ss ops)).
+Proof.
+  exists E0, ops_chain. split; [reflexivity|]. intros H.
+  pose proof (ixs_cvals _ _ H "c06.aa__0.1.0" "c06.bb__0.1.0") as X.
+  vm_compute in X. destruct X as [_ X].
+  destruct X as [X|[]]; [left; reflexivity|discriminate].
+Qed.
+
+(** Pinned [_unregister]: the [_used] entry of a removed package stays. *)
+Lemma used_pinned_refuted :
+  exists E ops, env_ok E = true /\
+    ~ ix_same (load E (raw (cs (s_run_pinned E init_ss ops)))) (mem (s_run_pinned E init_ss ops)).
+Proof.
+  exists E0, [SOp (CSetItem "/" "x" "1"); SAttach "/x" "c06.cc__0.1.0" "0" true;
+              SOp (CDetach "/x" "c06.cc__0.1.0")].
+  split; [reflexivity|]. intros H.
+  pose proof (ixs_ukeys _ _ H "c06-pkg__0.1.0") as X. vm_compute in X. discriminate.
+Qed.
+
+(** The repaired rules pass on the same histories. *)
+Lemma chain_fixed_same :
+  ix_same (load E0 (raw (cs (s_run E0 init_ss ops_chain)))) (mem (s_run E0 init_ss ops_chain)).
+Proof. apply reopen_same; [reflexivity|]. apply sync_run_light; reflexivity. Qed.
+
+Lemma sync_step_refused E st o :
+  env_ok E = true -> Sync E st -> refused (snd (s_step E st o)) = true ->
+  Sync E (fst (s_step E st o)) /\ raw (cs (fst (s_step E st o))) = raw (cs st).
+Proof.
+  intros EO S H. split; [|now rewrite (s_step_refused_same E st o H)].
+  destruct (is_heavy o) eqn:Hv; [|now apply sync_step_light].
+  destruct o as [co| | |]; try discriminate.
+  destruct co; try discriminate; unfold s_step, s_step_gen in *;
+    (destruct (ro st && _); [exact S|];
+     match goal with
+     | |- context [c_step ?c ?o] =>
+         pose proof (raw_step_refused E st o S) as R; unfold RawStep in R;
+         destruct (c_step c o) as [c' r]; simpl in *; apply sync_track; auto
+     end).
+Qed.
+
+(** ** What [Sync] says, clause by clause *)
+
+Section Characterisation.
+  Variables (E : env) (st : sstate).
+  Hypothesis S : Sync E st.
+  Let T := raw (cs st).
+
+  Lemma ch_raw : SyncRaw E T (next_id (cs st)) (prov (cs st)).
+  Proof. apply (raw_of_sync E st S). Qed.
+
+  (** every attached object has its link, holding the object's path *)
+  Lemma ch_obj_link q :
+    In q (objs T) ->
+    exists a, t_get T (link_path (sch q) (uid q)) = Some (mkobj (KData (name_of q)) a).
+  Proof.
+    intros I. pose proof (sr_tocok _ _ _ _ ch_raw (link_path (sch q) (uid q)) eq_refl) as X.
+    fold T in X. rewrite spec_link in X.
+    destruct (find _ (objs T)) as [q'|] eqn:F.
+    - apply find_some in F as [F1 F2]. apply andb_prop in F2 as [_ F2]. apply String.eqb_eq in F2.
+      assert (q' = q) by (apply (sraw_uniq _ _ _ _ ch_raw); auto). subst q'.
+      destruct (t_get T _) as [[[|v] a]|]; simpl in X; try discriminate.
+      apply String.eqb_eq in X. subst. eauto.
+    - apply (find_none _ _ F) in I. now rewrite !String.eqb_refl in I.
+  Qed.
+
+  (** every link points at an existing object of that schema and uuid *)
+  Lemma ch_link_obj s u :
+    t_has T (link_path s u) = true ->
+    exists q a, In q (objs T) /\ sch q = s /\ uid q = u /\
+                t_get T (link_path s u) = Some (mkobj (KData (name_of q)) a).
+  Proof.
+    intros H. apply (has_link E (objs T) T s u (br_toc _ _ _ _ ch_raw)) in H as (q & I & <- & <-).
+    destruct (ch_obj_link q I) as (a & G). exists q, a. auto.
+  Qed.
+
+  (** no two objects share a uuid *)
+  Lemma ch_uuid_unique q1 q2 : In q1 (objs T) -> In q2 (objs T) -> uid q1 = uid q2 -> q1 = q2.
+  Proof. apply (sraw_uniq _ _ _ _ ch_raw). Qed.
+
+  (** schema and package records exist exactly for the schemas in use *)
+  Lemma ch_schema s :
+    t_has T (schema_path s) = true <-> exists q, In q (objs T) /\ sch q = s.
+  Proof. rewrite (has_schema E (objs T) T s (br_toc _ _ _ _ ch_raw)). apply uses_iff. Qed.
+
+  Lemma ch_schema_complete s :
+    t_has T (schema_path s) = true ->
+    t_has T (schema_path s ++ ["jsonschema.json"]) = true /\
+    t_has T (schema_path s ++ ["compat"]) = true /\
+    t_has T (linkgrp_path s) = true /\ t_has T (package_path (pkg_of E s)) = true.
+  Proof.
+    pose proof (br_toc _ _ _ _ ch_raw) as TO. fold T in TO.
+    rewrite (has_schema E _ T s TO), (has_json E _ T s TO), (has_compat E _ T s TO),
+      (has_linkgrp E _ T s TO), (has_package E _ T _ TO).
+    intros U. repeat split; auto. apply uses_iff in U as (q & I & <-). apply needs_iff. eauto.
+  Qed.
+
+  Lemma ch_package p :
+    t_has T (package_path p) = true <-> exists q, In q (objs T) /\ pkg_of E (sch q) = p.
+  Proof. rewrite (has_package E (objs T) T p (br_toc _ _ _ _ ch_raw)). apply needs_iff. Qed.
+
+  (** no empty bookkeeping groups *)
+  Lemma ch_dirs_nonempty :
+    (t_has T links_segs = true -> objs T <> []) /\
+    (t_has T schemas_segs = true -> objs T <> []) /\
+    (t_has T packages_segs = true -> objs T <> []) /\
+    (forall s, t_has T (linkgrp_path s) = true -> exists u, t_has T (link_path s u) = true).
+  Proof.
+    pose proof (br_toc _ _ _ _ ch_raw) as TO. fold T in TO.
+    destruct (spec_dirs E (objs T)) as (D1 & D2 & D3).
+    repeat split.
+    - rewrite (tocok_has E _ T links_segs TO eq_refl), D1. destruct (objs T); discriminate.
+    - rewrite (tocok_has E _ T schemas_segs TO eq_refl), D2. destruct (objs T); discriminate.
+    - rewrite (tocok_has E _ T packages_segs TO eq_refl), D3. destruct (objs T); discriminate.
+    - intros s. rewrite (has_linkgrp E _ T s TO). intros U. apply uses_iff in U as (q & I & <-).
+      exists (uid q). apply (has_link E _ T _ _ TO). eauto.
+  Qed.
+
+  Lemma ch_meta_dir d m x :
+    has_reserved d = false -> meta_seg m = true -> t_get T (d ++ [m]) = Some x ->
+    owner_ok T d m = true /\ has_children T (d ++ [m]) = true.
+  Proof.
+    intros Hd Hm G. pose proof (sr_entries _ _ _ _ ch_raw _ _ G) as C. unfold chk_entry in C.
+    apply andb_prop in C as [_ C]. rewrite (classify_dir d m Hd Hm) in C.
+    apply andb_prop in C as [C C3]. apply andb_prop in C as [_ C2]. auto.
+  Qed.
+End Characterisation.
